@@ -1,11 +1,11 @@
 /-
   Svgdx.Proofs.Unroll — a `<loop count=N>` renders what its manual unrolling renders (model `Svgdx.Ctl.Gen`).
 
-  (0) definitions: `Node.specsFree` / `Nodes.specsFree`, `OrigOK`, `Ok`, `NF`, the statement structures `AllOk`, `AllMono`;
-  (1) `allOk`    : `Ok` (not inside `<specs>`, a scope exists, every reuse template specs-free) is kept by all 15
-                   functions of the mutual block, for every outcome;
-  (A) `allMono`  : FUEL ROBUSTNESS — on `Ok` states and specs-free trees, a result that is not `.error .fuel` is the
-                   result (same state, same value) for every larger fuel, for all 15 functions;
+  (0) definitions: `Ok`, `NF`, the statement structures `AllOk`, `AllMono`;
+  (1) `allOk`    : `Ok` (not inside `<specs>`, a scope exists) is kept by all 15 functions of the mutual block, for
+                   every outcome (a repackaging of `allInv`);
+  (A) `allMono`  : FUEL ROBUSTNESS, WITHOUT SIDE CONDITION — for all 15 functions, every state and every tree: a result
+                   that is not `.error .fuel` is the result (same state, same value) for every larger fuel;
   (B) `loop_eq_unroll`, `loop_unroll_fuel_exists`, `loop_eq_unroll_eventually`, `loop_unroll_ok`, `genLoop_eq_unroll`:
                    THE UNROLLING THEOREM — under first-attempt success of every pass, `loopIter` for N passes and
                    `processNodes` on `unroll name [start, start+step, …] ks` from the same state give the same final
@@ -13,11 +13,13 @@
                    reports the fuel error; such fuels exist;
   (C) `UnrollExample` : a concrete instance checked by kernel evaluation.
 
-  WHY `specsFree` / `Ok`: fuel robustness is FALSE as a blanket statement. Inside `<specs>` (`inSpecs = true`) `onePass`
-  ignores the result of every tag — including `.error .fuel` — so a fuel error there is swallowed: `genSpecs` returns
-  `.ok ([], none)` with whatever was registered before the fuel ran out, and more fuel gives a different state without any
-  fuel error having been reported. The exact statement that holds excludes `<specs>` elements WITH content (from the
-  tree and from the reuse templates in `originals`); an empty `<specs/>` is harmless.
+  HISTORY of (A): while `onePass` ignored EVERYTHING that happened inside `<specs>` (including `.error .fuel`), fuel
+  robustness was false as a blanket statement and needed "no `<specs>` with content in the tree or in the reuse
+  templates" (`specsFree`, `OrigOK`). Since limit / fuel errors are final inside `<specs>` too, a fuel error always
+  reaches the caller, and the statement holds unconditionally; the other errors inside `<specs>` are still dropped, but
+  such results are not the fuel error, so the induction hypothesis makes them equal at both fuels.
+
+  WHY `Ok` in (B): inside `<specs>` `onePass` drops the outputs, and `allInv` needs a scope.
 
   WHY `name ≠ "id"`: `registerEarly` looks at the `id` attribute of every tag; `<var id="3"/>` in the unrolled world
   would be registered as a reuse template, which the loop never does (difference in `originals`).
@@ -27,7 +29,6 @@
   the unrolled copies) is not covered here.
 -/
 import Svgdx.Proofs.CtlInv
-import Svgdx.Proofs.Balanced
 import Svgdx.Proofs.C16Laws
 import Svgdx.Ctl.SimpleEval
 namespace Svgdx.Ctl
@@ -37,953 +38,102 @@ variable {ρ : Type}
 
 /-! ## (0) definitions -/
 
-/- no `<specs>` element WITH content anywhere in the tree (an empty `<specs/>` is harmless: `genSpecs` with
-    `kids = none` does nothing). Needed for fuel robustness: inside `<specs>` (`inSpecs = true`) `onePass` ignores
-    the result of every tag, INCLUDING `.error .fuel`, so a fuel error there is swallowed and the outcome with
-    more fuel can differ without any fuel error being reported. -/
-mutual
-def Node.specsFree : Node → Bool
-  | .elem e (some ks) _ => e.name != cs!"specs" && ks.specsFree
-  | .elem _ none _ => true
-  | .comment _ _ => true
-  | .text _ => true
-  | .cdata _ => true
-def Nodes.specsFree : Nodes → Bool
-  | .nil => true
-  | .cons n r => n.specsFree && r.specsFree
-end
-
-/-- every reuse template in the element table is specs-free -/
-def OrigOK (st : St ρ) : Prop :=
-  ∀ i e kids, (i, e, kids) ∈ st.originals → (Node.elem e kids none).specsFree = true
-
-/-- the states on which fuel robustness holds: not inside `<specs>`, a scope exists (`AllInv` needs it),
-    all templates specs-free -/
+/-- the states of the unrolling theorem: not inside `<specs>` (there `onePass` drops every output), and a scope
+    exists (`AllInv` needs it) -/
 structure Ok (st : St ρ) : Prop where
   inSpecs : st.inSpecs = false
   scopes : st.scopes ≠ []
-  orig : OrigOK st
 
 /-- "not the fuel error" -/
 def NF {α : Type} (x : St ρ × Except CErr α) : Prop := x.2 ≠ .error .fuel
 
 /-- `Ok` is kept by every function of the mutual block, whatever the outcome -/
 structure AllOk (ev : Evalr ρ) (fuel : Nat) : Prop where
-  genElem : ∀ (st : St ρ) e kids, Ok st → (Node.elem e kids none).specsFree = true → Ok (genElem ev fuel st e kids).1
-  dispatch : ∀ (st : St ρ) e kids, Ok st → (Node.elem e kids none).specsFree = true → Ok (dispatch ev fuel st e kids).1
-  genSpecs : ∀ (st : St ρ), Ok st → Ok (genSpecs ev fuel st none).1
+  genElem : ∀ (st : St ρ) e kids, Ok st → Ok (genElem ev fuel st e kids).1
+  dispatch : ∀ (st : St ρ) e kids, Ok st → Ok (dispatch ev fuel st e kids).1
+  genSpecs : ∀ (st : St ρ) kids, Ok st → Ok (genSpecs ev fuel st kids).1
   genReuse : ∀ (st : St ρ) e, Ok st → Ok (genReuse ev fuel st e).1
-  genIf : ∀ (st : St ρ) e kids, Ok st → (Node.elem e kids none).specsFree = true → Ok (genIf ev fuel st e kids).1
-  genContainer : ∀ (st : St ρ) e ks, Ok st → (Node.elem e (some ks) none).specsFree = true →
-    Ok (genContainer ev fuel st e ks).1
-  genGroup : ∀ (st : St ρ) e kids, Ok st → (Node.elem e kids none).specsFree = true → Ok (genGroup ev fuel st e kids).1
-  genLoop : ∀ (st : St ρ) e kids, Ok st → (Node.elem e kids none).specsFree = true → Ok (genLoop ev fuel st e kids).1
-  loopIter : ∀ (st : St ρ) ks c w u n v s i acc bb, Ok st → ks.specsFree = true →
-    Ok (loopIter ev fuel st ks c w u n v s i acc bb).1
-  genFor : ∀ (st : St ρ) e kids, Ok st → (Node.elem e kids none).specsFree = true → Ok (genFor ev fuel st e kids).1
-  forIter : ∀ (st : St ρ) ks v iv items idx acc bb, Ok st → ks.specsFree = true →
-    Ok (forIter ev fuel st ks v iv items idx acc bb).1
-  genNode : ∀ (st : St ρ) n, Ok st → n.specsFree = true → Ok (genNode ev fuel st n).1
-  onePass : ∀ (st : St ρ) ts outs bb rem, Ok st → (∀ t ∈ ts, t.node.specsFree = true) →
-    Ok (onePass ev fuel st ts outs bb rem).1
-  retry : ∀ (st : St ρ) ts outs bb, Ok st → (∀ t ∈ ts, t.node.specsFree = true) → Ok (retry ev fuel st ts outs bb).1
-  processNodes : ∀ (st : St ρ) ks, Ok st → ks.specsFree = true → Ok (processNodes ev fuel st ks).1
+  genIf : ∀ (st : St ρ) e kids, Ok st → Ok (genIf ev fuel st e kids).1
+  genContainer : ∀ (st : St ρ) e ks, Ok st → Ok (genContainer ev fuel st e ks).1
+  genGroup : ∀ (st : St ρ) e kids, Ok st → Ok (genGroup ev fuel st e kids).1
+  genLoop : ∀ (st : St ρ) e kids, Ok st → Ok (genLoop ev fuel st e kids).1
+  loopIter : ∀ (st : St ρ) ks c w u n v s i acc bb, Ok st → Ok (loopIter ev fuel st ks c w u n v s i acc bb).1
+  genFor : ∀ (st : St ρ) e kids, Ok st → Ok (genFor ev fuel st e kids).1
+  forIter : ∀ (st : St ρ) ks v iv items idx acc bb, Ok st → Ok (forIter ev fuel st ks v iv items idx acc bb).1
+  genNode : ∀ (st : St ρ) n, Ok st → Ok (genNode ev fuel st n).1
+  onePass : ∀ (st : St ρ) ts outs bb rem, Ok st → Ok (onePass ev fuel st ts outs bb rem).1
+  retry : ∀ (st : St ρ) ts outs bb, Ok st → Ok (retry ev fuel st ts outs bb).1
+  processNodes : ∀ (st : St ρ) ks, Ok st → Ok (processNodes ev fuel st ks).1
 
 /-- **fuel robustness**: a result that is not the fuel error is the result for every larger fuel -/
 structure AllMono (ev : Evalr ρ) (f : Nat) : Prop where
-  genElem : ∀ (st : St ρ) e kids f', f ≤ f' → Ok st → (Node.elem e kids none).specsFree = true →
+  genElem : ∀ (st : St ρ) e kids f', f ≤ f' →
     NF (genElem ev f st e kids) → genElem ev f' st e kids = genElem ev f st e kids
-  dispatch : ∀ (st : St ρ) e kids f', f ≤ f' → Ok st → (Node.elem e kids none).specsFree = true →
+  dispatch : ∀ (st : St ρ) e kids f', f ≤ f' →
     NF (dispatch ev f st e kids) → dispatch ev f' st e kids = dispatch ev f st e kids
-  genSpecs : ∀ (st : St ρ) f', f ≤ f' → NF (genSpecs ev f st none) → genSpecs ev f' st none = genSpecs ev f st none
-  genReuse : ∀ (st : St ρ) e f', f ≤ f' → Ok st → NF (genReuse ev f st e) → genReuse ev f' st e = genReuse ev f st e
-  genIf : ∀ (st : St ρ) e kids f', f ≤ f' → Ok st → (Node.elem e kids none).specsFree = true →
+  genSpecs : ∀ (st : St ρ) kids f', f ≤ f' →
+    NF (genSpecs ev f st kids) → genSpecs ev f' st kids = genSpecs ev f st kids
+  genReuse : ∀ (st : St ρ) e f', f ≤ f' → NF (genReuse ev f st e) → genReuse ev f' st e = genReuse ev f st e
+  genIf : ∀ (st : St ρ) e kids f', f ≤ f' →
     NF (genIf ev f st e kids) → genIf ev f' st e kids = genIf ev f st e kids
-  genContainer : ∀ (st : St ρ) e ks f', f ≤ f' → Ok st → (Node.elem e (some ks) none).specsFree = true →
+  genContainer : ∀ (st : St ρ) e ks f', f ≤ f' →
     NF (genContainer ev f st e ks) → genContainer ev f' st e ks = genContainer ev f st e ks
-  genGroup : ∀ (st : St ρ) e kids f', f ≤ f' → Ok st → (Node.elem e kids none).specsFree = true →
+  genGroup : ∀ (st : St ρ) e kids f', f ≤ f' →
     NF (genGroup ev f st e kids) → genGroup ev f' st e kids = genGroup ev f st e kids
-  genLoop : ∀ (st : St ρ) e kids f', f ≤ f' → Ok st → (Node.elem e kids none).specsFree = true →
+  genLoop : ∀ (st : St ρ) e kids f', f ≤ f' →
     NF (genLoop ev f st e kids) → genLoop ev f' st e kids = genLoop ev f st e kids
-  loopIter : ∀ (st : St ρ) ks c w u n v s i acc bb f', f ≤ f' → Ok st → ks.specsFree = true →
+  loopIter : ∀ (st : St ρ) ks c w u n v s i acc bb f', f ≤ f' →
     NF (loopIter ev f st ks c w u n v s i acc bb) →
     loopIter ev f' st ks c w u n v s i acc bb = loopIter ev f st ks c w u n v s i acc bb
-  genFor : ∀ (st : St ρ) e kids f', f ≤ f' → Ok st → (Node.elem e kids none).specsFree = true →
+  genFor : ∀ (st : St ρ) e kids f', f ≤ f' →
     NF (genFor ev f st e kids) → genFor ev f' st e kids = genFor ev f st e kids
-  forIter : ∀ (st : St ρ) ks v iv items idx acc bb f', f ≤ f' → Ok st → ks.specsFree = true →
+  forIter : ∀ (st : St ρ) ks v iv items idx acc bb f', f ≤ f' →
     NF (forIter ev f st ks v iv items idx acc bb) →
     forIter ev f' st ks v iv items idx acc bb = forIter ev f st ks v iv items idx acc bb
-  genNode : ∀ (st : St ρ) n f', f ≤ f' → Ok st → n.specsFree = true →
-    NF (genNode ev f st n) → genNode ev f' st n = genNode ev f st n
-  onePass : ∀ (st : St ρ) ts outs bb rem f', f ≤ f' → Ok st → (∀ t ∈ ts, t.node.specsFree = true) →
+  genNode : ∀ (st : St ρ) n f', f ≤ f' → NF (genNode ev f st n) → genNode ev f' st n = genNode ev f st n
+  onePass : ∀ (st : St ρ) ts outs bb rem f', f ≤ f' →
     NF (onePass ev f st ts outs bb rem) → onePass ev f' st ts outs bb rem = onePass ev f st ts outs bb rem
-  retry : ∀ (st : St ρ) ts outs bb f', f ≤ f' → Ok st → (∀ t ∈ ts, t.node.specsFree = true) →
+  retry : ∀ (st : St ρ) ts outs bb f', f ≤ f' →
     NF (retry ev f st ts outs bb) → retry ev f' st ts outs bb = retry ev f st ts outs bb
-  processNodes : ∀ (st : St ρ) ks f', f ≤ f' → Ok st → ks.specsFree = true →
+  processNodes : ∀ (st : St ρ) ks f', f ≤ f' →
     NF (processNodes ev f st ks) → processNodes ev f' st ks = processNodes ev f st ks
 
-/-! ## (1) `Ok` is an invariant of the whole mutual block -/
+/-! ## (1) `Ok` is an invariant of the whole mutual block (from `allInv`) -/
 
-/-! ### element names are untouched by the attribute plumbing of `reuse` -/
+theorem ok_of_inv {a b : St ρ} (h : Ok a) (hi : Inv a b) : Ok b :=
+  ⟨hi.2.2.2.2.trans h.inSpecs, hi.2.2.1⟩
 
-@[simp] theorem removeAttrs_name (e : Elem) (ks : List Str) : (e.removeAttrs ks).name = e.name := rfl
-
-@[simp] theorem addClass_name (e : Elem) (c : Str) : (e.addClass c).name = e.name := rfl
-
-@[simp] theorem popAttr_name (e : Elem) (k : Str) : (e.popAttr k).1.name = e.name := by
-  unfold Elem.popAttr
-  split
-  rfl
-
-@[simp] theorem withAttrsFrom_name (a b : Elem) : (a.withAttrsFrom b).name = a.name := rfl
-
-@[simp] theorem expandPair_name (e : Elem) (k k1 k2 : Str) : (e.expandPair k k1 k2).name = e.name := by
-  unfold Elem.expandPair
-  split
-  · rename_i e' v h
-    have : e'.name = e.name := by rw [← popAttr_name e k, h]
-    split
-    exact this
-  · rfl
-
-@[simp] theorem expandCompoundSize_name (e : Elem) : e.expandCompoundSize.name = e.name := by
-  unfold Elem.expandCompoundSize
-  dsimp only
-  rw [expandPair_name]
-  split
-  · rw [expandPair_name, expandPair_name]
-  · rw [expandPair_name]
-
-@[simp] theorem expandCompoundPos_name (e : Elem) : e.expandCompoundPos.name = e.name := by
-  unfold Elem.expandCompoundPos
-  dsimp only
-  rw [expandPair_name, expandPair_name, expandPair_name, expandPair_name]
-  split
-  · rename_i e' v h
-    have h1 : e'.name = e.name := by rw [← popAttr_name e (cs!"xy"), h]
-    simp only [popAttr_name]
-    exact h1
-  · rfl
-
-@[simp] theorem lineCoord_name (e : Elem) (k : Str) (v : Rat) (d : Option Rat) : (e.lineCoord k v d).name = e.name := by
-  unfold Elem.lineCoord
-  split
-  · rfl
-  · split
-    · split <;> rfl
-    · rfl
-
-@[simp] theorem positionViaTransform_name (p : Gen.Position) (e : Elem) :
-    (Elem.positionViaTransform p e).name = e.name := by
-  unfold Elem.positionViaTransform
-  dsimp only
-  split
-  · simp only [setAttr_name, removeAttrs_name]
-  · rfl
-
-theorem setPositionAttrs_name (p : Gen.Position) (e : Elem) : (Elem.setPositionAttrs p e).name = e.name := by
-  unfold Elem.setPositionAttrs
-  split
-  · dsimp only
-    repeat' split
-    all_goals simp only [setAttr_name, removeAttrs_name, lineCoord_name]
-  · split
-    · exact positionViaTransform_name p e
-    · rfl
-
-theorem reuseOverride_name (re inst : Elem) : (reuseOverride re inst).name = inst.name := by
-  unfold reuseOverride
-  rw [foldl_name]
-  intro a b
-  split
-  · rfl
-  · split
-    · rfl
-    · split <;> rfl
-
-theorem reuseDress_name (re inst : Elem) : (reuseDress re inst).name = inst.name := by
-  unfold reuseDress
-  split
-  rename_i inst' refId h
-  have h1 : inst'.name = inst.name := by rw [← popAttr_name inst (cs!"id"), h]
-  dsimp only
-  have h2 : ∀ a : Elem, a.name = inst.name →
-      (re.classes.foldl (fun (a : Elem) c => a.addClass c) a).name = inst.name := by
-    intro a ha
-    rw [foldl_name (fun (a : Elem) c => a.addClass c) (fun a b => rfl)]
-    exact ha
-  have h3 : ∀ a : Elem, a.name = inst.name →
-      (match re.getAttr cs!"style" with
-        | some s => a.setAttr cs!"style" s
-        | none => a).name = inst.name := by
-    intro a ha
-    split
-    · exact ha
-    · exact ha
-  have h4 : (match re.getAttr cs!"id" with
-        | some i => inst'.setAttr cs!"id" i
-        | none => inst').name = inst.name := by
-    split
-    · exact h1
-    · exact h1
-  split
-  · rw [addClass_name]
-    exact h2 _ (h3 _ h4)
-  · exact h2 _ (h3 _ h4)
-
-theorem reuseInstance_name (re inst : Elem) :
-    (reuseInstance re inst).name = inst.name ∨ (reuseInstance re inst).name = ['g'] := by
-  unfold reuseInstance
-  dsimp only
-  split
-  · right
-    rw [withAttrsFrom_name, new_name]
-  · left
-    rw [reuseDress_name, reuseOverride_name]
-
-/-! ### specs-freeness plumbing -/
-
-theorem specsFree_none (e : Elem) (t : Option Str) : (Node.elem e none t).specsFree = true := by
-  simp [Node.specsFree]
-
-theorem specsFree_tail (e : Elem) (kids : Option Nodes) (t t' : Option Str) :
-    (Node.elem e kids t).specsFree = (Node.elem e kids t').specsFree := by
-  cases kids <;> simp [Node.specsFree]
-
-theorem specsFree_some {e : Elem} {ks : Nodes} {t : Option Str} (h : (Node.elem e (some ks) t).specsFree = true) :
-    (e.name != cs!"specs") = true ∧ ks.specsFree = true := by
-  simpa [Node.specsFree] using h
-
-theorem specsFree_kids {e : Elem} {kids : Option Nodes} {t : Option Str} (h : (Node.elem e kids t).specsFree = true)
-    {ks : Nodes} (hk : kids = some ks) : ks.specsFree = true := by
-  subst hk
-  exact (specsFree_some h).2
-
-theorem specsFree_single (n : Node) (h : n.specsFree = true) : (Nodes.cons n .nil).specsFree = true := by
-  simp [Nodes.specsFree, h]
-
-theorem specsFree_toList : ∀ (ks : Nodes), ks.specsFree = true → ∀ n ∈ ks.toList, n.specsFree = true
-  | .nil, _, n, hn => by simp [Nodes.toList] at hn
-  | .cons m r, h, n, hn => by
-    simp only [Nodes.specsFree, Bool.and_eq_true] at h
-    simp only [Nodes.toList, List.mem_cons] at hn
-    rcases hn with rfl | hn
-    · exact h.1
-    · exact specsFree_toList r h.2 n hn
-
-theorem specsFree_tags (ks : Nodes) (h : ks.specsFree = true) :
-    ∀ t ∈ (ks.toList.zipIdx.map fun (n, i) => ({ idx := i, node := n } : Tag)), t.node.specsFree = true := by
-  intro t ht
-  simp only [List.mem_map] at ht
-  obtain ⟨⟨n, i⟩, hm, rfl⟩ := ht
-  exact specsFree_toList ks h n (List.fst_mem_of_mem_zipIdx hm)
-
-theorem lookupTable_mem {β : Type} : ∀ (t : List (Str × β)) (k : Str) (v : β),
-    Attrs.lookupTable t k = some v → ∃ k', (k', v) ∈ t
-  | [], _, _, h => by simp [Attrs.lookupTable] at h
-  | (k', v') :: rest, k, v, h => by
-    simp only [Attrs.lookupTable] at h
-    split at h
-    · cases h
-      exact ⟨k', List.mem_cons_self⟩
-    · obtain ⟨k'', hk⟩ := lookupTable_mem rest k v h
-      exact ⟨k'', List.mem_cons_of_mem _ hk⟩
-
-/-! ### `OrigOK` through the basic steps -/
-
-theorem orig_of_eq {a b : St ρ} (h : OrigOK a) (h3 : b.originals = a.originals) : OrigOK b := by
-  intro i e k hm
-  rw [h3] at hm
-  exact h i e k hm
-
-theorem orig_cons {a b : St ρ} (h : OrigOK a) (i : Str) (e : Elem) (kids : Option Nodes)
-    (hs : (Node.elem e kids none).specsFree = true) (h3 : b.originals = (i, e, kids) :: a.originals) : OrigOK b := by
-  intro i' e' k' hm
-  rw [h3] at hm
-  rcases List.mem_cons.1 hm with h1 | h1
-  · cases h1
-    exact hs
-  · exact h _ _ _ h1
-
-theorem orig_ite {a b : St ρ} (h : OrigOK a) (c : Bool) (i : Str) (e : Elem) (kids : Option Nodes)
-    (hs : (Node.elem e kids none).specsFree = true)
-    (h3 : b.originals = if c then a.originals else (i, e, kids) :: a.originals) : OrigOK b := by
-  cases c
-  · exact orig_cons h i e kids hs h3
-  · exact orig_of_eq h h3
-
-theorem orig_setVar (a : St ρ) (k v : Str) (h : OrigOK a) : OrigOK (a.setVar k v) := by
-  unfold St.setVar
-  split <;> exact orig_of_eq h rfl
-
-theorem orig_foldl_setVar (vars : List (Str × Str)) (a : St ρ) (h : OrigOK a) :
-    OrigOK (vars.foldl (fun s kv => s.setVar kv.1 kv.2) a) := by
-  induction vars generalizing a with
-  | nil => exact h
-  | cons x xs ih =>
-    simp only [List.foldl_cons]
-    exact ih _ (orig_setVar a x.1 x.2 h)
-
-theorem orig_updateElement (ev : Evalr ρ) (a : St ρ) (e : Elem) (h : OrigOK a) : OrigOK (updateElement ev a e) := by
-  unfold updateElement
-  split
-  · exact h
-  · exact orig_ite h _ _ e none (specsFree_none e none) rfl
-
-theorem orig_registerOriginal (ev : Evalr ρ) (a : St ρ) (e : Elem) (k : Option Nodes) (h : OrigOK a)
-    (hs : (Node.elem e k none).specsFree = true) : OrigOK (registerOriginal ev a e k) := by
-  unfold registerOriginal
-  split
-  · exact h
-  · exact orig_ite h _ _ e k hs rfl
-
-theorem orig_setPrev (a : St ρ) (e : Elem) (h : OrigOK a) : OrigOK (setPrev a e) := orig_of_eq h rfl
-
-theorem orig_seq {α β : Type} (x : St ρ × Except CErr α) (f : St ρ → α → St ρ × Except CErr β)
-    (hx : OrigOK x.1) (hf : ∀ v, x.2 = .ok v → OrigOK (f x.1 v).1) : OrigOK (seq x f).1 := by
-  unfold seq
-  split
-  · exact hx
-  · exact hf _ ‹_›
-
-theorem seq_ok {α β : Type} (x : St ρ × Except CErr α) (f : St ρ → α → St ρ × Except CErr β) (b : β)
-    (h : (seq x f).2 = .ok b) : ∃ a, x.2 = .ok a ∧ (f x.1 a).2 = .ok b := by
-  unfold seq at h
-  split at h
-  · cases h
-  · exact ⟨_, ‹_›, h⟩
-
-theorem orig_withRng {α : Type} (st : St ρ) (r : Except Err (α × ρ)) (h : OrigOK st) : OrigOK (withRng st r).1 := by
-  unfold withRng
-  split
-  · exact orig_of_eq h rfl
-  · exact h
-
-theorem withRng_originals {α : Type} (st : St ρ) (r : Except Err (α × ρ)) :
-    (withRng st r).1.originals = st.originals := by
-  unfold withRng
-  split <;> rfl
-
-theorem withRng_ok {α : Type} (st : St ρ) (r : Except Err (α × ρ)) (a : α) (h : (withRng st r).2 = .ok a) :
-    ∃ rng, r = .ok (a, rng) := by
-  unfold withRng at h
-  split at h
-  · cases h
-    exact ⟨_, rfl⟩
-  · cases h
-
-theorem orig_genVar (ev : Evalr ρ) (st : St ρ) (e : Elem) (h : OrigOK st) : OrigOK (genVar ev st e).1 := by
-  unfold genVar
-  dsimp only
-  split
-  · exact h
-  · exact orig_foldl_setVar _ _ (orig_of_eq h rfl)
-
-theorem orig_elementEvents (ev : Evalr ρ) (st : St ρ) (e : Elem) (h : OrigOK st) :
-    OrigOK (elementEvents ev st e).1 := by
-  unfold elementEvents
-  apply orig_seq
-  · unfold commentEvents
-    split
-    · split
-      · exact orig_of_eq h rfl
-      · exact h
-    · exact h
-  · intro evs1 _
-    unfold commentEvents
-    split
-    · split
-      · exact orig_of_eq h rfl
-      · exact h
-    · exact h
-
-theorem orig_genOther (ev : Evalr ρ) (st : St ρ) (e : Elem) (h : OrigOK st) : OrigOK (genOther ev st e).1 := by
-  unfold genOther
-  apply orig_seq _ _ (orig_withRng st _ h)
-  intro e' _
-  dsimp only
-  have h2 := orig_updateElement ev (withRng st (otherPipeline ev st e)).1 e' (orig_withRng st _ h)
-  split
-  · exact h2
-  · apply orig_seq
-    · apply orig_elementEvents
-      split
-      · exact orig_setPrev _ _ h2
-      · exact h2
-    · intro evs _
-      apply orig_elementEvents
-      split
-      · exact orig_setPrev _ _ h2
-      · exact h2
-
-theorem orig_finishContainer (ev : Evalr ρ) (st : St ρ) ne bb (h : OrigOK st) :
-    OrigOK (finishContainer ev st ne bb) := by
-  unfold finishContainer
-  dsimp only
-  have h0 : OrigOK (if bb.isSome then updateElement ev st { ne with contentBBox := bb } else st) := by
-    split
-    · exact orig_updateElement ev st _ h
-    · exact h
-  split
-  · exact orig_setPrev _ _ h0
-  · exact h0
-
-theorem orig_preTest (ev : Evalr ρ) (st : St ρ) c w i (h : OrigOK st) : OrigOK (preTest ev st c w i).1 := by
-  unfold preTest
-  split
-  · exact h
-  · exact orig_withRng st _ h
-  · exact h
-
-theorem orig_postTest (ev : Evalr ρ) (st : St ρ) u (h : OrigOK st) : OrigOK (postTest ev st u).1 := by
-  unfold postTest
-  split
-  · exact orig_withRng st _ h
-  · exact h
-
-theorem orig_bindLoopVar (st : St ρ) n v (h : OrigOK st) : OrigOK (bindLoopVar st n v) := by
-  unfold bindLoopVar
-  split
-  · exact h
-  · exact orig_setVar st _ _ h
-
-theorem orig_bindForVars (st : St ρ) v iv item idx (h : OrigOK st) : OrigOK (bindForVars st v iv item idx) := by
-  unfold bindForVars
-  have h1 := orig_setVar st v item h
-  dsimp only
-  split
-  · exact orig_setVar _ _ _ h1
-  · exact h1
-
-theorem orig_registerEarly (ev : Evalr ρ) (st : St ρ) (n : Node) (h : OrigOK st) (hn : n.specsFree = true) :
-    OrigOK (registerEarly ev st n) := by
-  unfold registerEarly
-  split
-  · rename_i e kids tail
-    exact orig_registerOriginal ev st e kids h (by rw [specsFree_tail e kids none tail]; exact hn)
-  · exact h
-
-theorem orig_groupFinish (ev : Evalr ρ) (st : St ρ) e r (h : OrigOK st) : OrigOK (groupFinish ev st e r).1 := by
-  unfold groupFinish
-  dsimp only
-  have hu := orig_updateElement ev st { e with contentBBox := r.2 } h
-  have hst : OrigOK (if r.2.isSome then setPrev (updateElement ev st { e with contentBBox := r.2 }) { e with contentBBox := r.2 }
-      else updateElement ev st { e with contentBBox := r.2 }) := by
-    split
-    · exact orig_setPrev _ _ hu
-    · exact hu
-  split
-  · exact hst
-  · split <;> exact hst
-
-theorem orig_clipPost (ev : Evalr ρ) (e : Elem) (x : St ρ × Res) (h : OrigOK x.1) : OrigOK (clipPost ev e x).1 := by
-  unfold clipPost
-  split
-  · split
-    · split
-      · exact h
-      · split
-        · split
-          · exact h
-          · exact orig_updateElement ev _ _ h
-          · exact h
-        · exact h
-    · exact h
-  · exact h
-
-theorem orig_updateIf (ev : Evalr ρ) (st : St ρ) (re : Elem) (b : Bool) (h : OrigOK st) :
-    OrigOK (if b then updateElement ev st re else st) := by
-  split
-  · exact orig_updateElement ev st re h
-  · exact h
-
-theorem orig_reusePrepare (ev : Evalr ρ) (st : St ρ) (re : Elem) (h : OrigOK st) :
-    OrigOK (reusePrepare ev st re).1 := by
-  unfold reusePrepare
-  split
-  · exact h
-  · split
-    · exact h
-    · exact orig_of_eq h rfl
-    · split
-      · exact h
-      · rename_i orig kids _
-        apply orig_seq _ _ (orig_withRng st _ h)
-        intro inst1 _
-        have h1 := orig_withRng st (evalAttributes ev st orig.expandCompoundSize) h
-        split
-        · exact h1
-        · dsimp only
-          split
-          · exact h1
-          · exact orig_updateIf ev _ _ _ h1
-
-theorem reuse_final (re inst1 orig : Elem) (kids : Option Nodes) (hn1 : inst1.name = orig.name)
-    (hs : (Node.elem orig kids none).specsFree = true) (p : Gen.Position) (e : Elem)
-    (he : e.name = (reuseInstance re inst1).name) (ik : Elem × Option Nodes)
-    (hik : ik = (Elem.setPositionAttrs p e, kids)) :
-    (Node.elem ik.1 ik.2 none).specsFree = true := by
-  subst hik
-  cases kids with
-  | none => exact specsFree_none _ _
-  | some ks =>
-    have hs' := specsFree_some hs
-    have hne : ((reuseInstance re inst1).name != cs!"specs") = true := by
-      rcases reuseInstance_name re inst1 with hh | hh
-      · rw [hh, hn1]
-        exact hs'.1
-      · rw [hh]
-        decide
-    simp only [Node.specsFree, Bool.and_eq_true]
-    refine ⟨?_, hs'.2⟩
-    rw [setPositionAttrs_name, he]
-    exact hne
-
-/-- the instance handed on by `reusePrepare` is specs-free: its content is a registered template's content,
-    and its name is the template's name or `g` -/
-theorem reusePrepare_specsFree' (ev : Evalr ρ) (st : St ρ) (re : Elem) (ik : Elem × Option Nodes) (h : OrigOK st)
-    (hr : (reusePrepare ev st re).2 = .ok ik) : (Node.elem ik.1 ik.2 none).specsFree = true := by
-  unfold reusePrepare at hr
-  split at hr
-  · cases hr
-  · split at hr
-    · cases hr
-    · cases hr
-    · split at hr
-      · cases hr
-      · rename_i i orig kids hl
-        obtain ⟨inst1, h1, h2⟩ := seq_ok _ _ _ hr
-        clear hr
-        obtain ⟨rng, h1⟩ := withRng_ok _ _ _ h1
-        have hn1 : inst1.name = orig.name := by
-          rw [evalAttributes_name ev st _ _ _ h1, expandCompoundSize_name]
-        obtain ⟨i', hm⟩ := lookupTable_mem _ _ _ hl
-        have hs := h i' orig kids hm
-        split at h2
-        · cases h2
-        · extract_lets inst2 at h2
-          split at h2
-          · cases h2
-          · extract_lets st' pos cbb pos2 at h2
-            clear_value st' pos2
-            split at h2
-            rename_i inst3 _ _ _ _ pos' inst2' heq
-            have hn2 : inst2'.name = (reuseInstance re inst1).name := by
-              split at heq
-              · split at heq
-                · rw [← (Prod.mk.inj heq).2]
-                  exact expandCompoundPos_name _
-                · rw [← (Prod.mk.inj heq).2]
-                  exact expandCompoundPos_name _
-              · rw [← (Prod.mk.inj heq).2]
-            exact reuse_final re inst1 orig kids hn1 hs _ _ hn2 ik (Except.ok.inj h2).symm
-
-/-- the tags `onePass` leaves pending are among those it was given -/
-theorem onePass_remain (ev : Evalr ρ) (P : Tag → Prop) (hP : ∀ (t : Tag) g, P t → P { t with failGen := g }) :
-    ∀ (fuel : Nat) (st : St ρ) (ts : List Tag) outs bb rem,
-    (∀ t ∈ ts, P t) → (∀ t ∈ rem, P t) → ∀ r, (onePass ev fuel st ts outs bb rem).2 = .ok r → ∀ t ∈ r.2.2, P t := by
-  intro fuel
-  induction fuel with
-  | zero =>
-    intro st ts outs bb rem _ _ r hr
-    unfold onePass at hr
-    cases hr
-  | succ fuel ih =>
-    intro st ts outs bb rem hts hrem r hr
-    cases ts with
-    | nil =>
-      unfold onePass at hr
-      cases hr
-      intro t ht
-      exact hrem t (List.mem_reverse.1 ht)
-    | cons t ts =>
-      unfold onePass at hr
-      have hts' : ∀ t' ∈ ts, P t' := fun t' ht' => hts t' (List.mem_cons_of_mem _ ht')
-      dsimp only at hr
-      split at hr
-      · exact ih _ _ _ _ _ hts' hrem r hr
-      · split at hr
-        · exact ih _ _ _ _ _ hts' hrem r hr
-        · split at hr
-          · cases hr
-          · refine ih _ _ _ _ _ hts' ?_ r hr
-            intro t' ht'
-            rcases List.mem_cons.1 ht' with rfl | h1
-            · exact hP _ _ (hts _ List.mem_cons_self)
-            · exact hrem _ h1
-
-/-! ### `OrigOK` through the mutual block -/
-
-structure AllOrig (ev : Evalr ρ) (fuel : Nat) : Prop where
-  genElem : ∀ (st : St ρ) e kids, OrigOK st → (Node.elem e kids none).specsFree = true →
-    OrigOK (genElem ev fuel st e kids).1
-  dispatch : ∀ (st : St ρ) e kids, OrigOK st → (Node.elem e kids none).specsFree = true →
-    OrigOK (dispatch ev fuel st e kids).1
-  genSpecs : ∀ (st : St ρ), OrigOK st → OrigOK (genSpecs ev fuel st none).1
-  genReuse : ∀ (st : St ρ) e, OrigOK st → OrigOK (genReuse ev fuel st e).1
-  genIf : ∀ (st : St ρ) e kids, OrigOK st → (Node.elem e kids none).specsFree = true →
-    OrigOK (genIf ev fuel st e kids).1
-  genContainer : ∀ (st : St ρ) e ks, OrigOK st → (Node.elem e (some ks) none).specsFree = true →
-    OrigOK (genContainer ev fuel st e ks).1
-  genGroup : ∀ (st : St ρ) e kids, OrigOK st → (Node.elem e kids none).specsFree = true →
-    OrigOK (genGroup ev fuel st e kids).1
-  genLoop : ∀ (st : St ρ) e kids, OrigOK st → (Node.elem e kids none).specsFree = true →
-    OrigOK (genLoop ev fuel st e kids).1
-  loopIter : ∀ (st : St ρ) ks c w u n v s i acc bb, OrigOK st → ks.specsFree = true →
-    OrigOK (loopIter ev fuel st ks c w u n v s i acc bb).1
-  genFor : ∀ (st : St ρ) e kids, OrigOK st → (Node.elem e kids none).specsFree = true →
-    OrigOK (genFor ev fuel st e kids).1
-  forIter : ∀ (st : St ρ) ks v iv items idx acc bb, OrigOK st → ks.specsFree = true →
-    OrigOK (forIter ev fuel st ks v iv items idx acc bb).1
-  genNode : ∀ (st : St ρ) n, OrigOK st → n.specsFree = true → OrigOK (genNode ev fuel st n).1
-  onePass : ∀ (st : St ρ) ts outs bb rem, OrigOK st → (∀ t ∈ ts, t.node.specsFree = true) →
-    OrigOK (onePass ev fuel st ts outs bb rem).1
-  retry : ∀ (st : St ρ) ts outs bb, OrigOK st → (∀ t ∈ ts, t.node.specsFree = true) →
-    OrigOK (retry ev fuel st ts outs bb).1
-  processNodes : ∀ (st : St ρ) ks, OrigOK st → ks.specsFree = true → OrigOK (processNodes ev fuel st ks).1
-
-theorem allOrig_zero (ev : Evalr ρ) : AllOrig ev 0 := by
-  constructor <;> intros <;> simp only [Ctl.genElem, Ctl.dispatch, Ctl.genSpecs, Ctl.genReuse, Ctl.genIf,
-    Ctl.genContainer, Ctl.genGroup, Ctl.genLoop, Ctl.loopIter, Ctl.genFor, Ctl.forIter, Ctl.genNode, Ctl.onePass,
-    Ctl.retry, Ctl.processNodes] <;> assumption
-
-section ostep
-variable (ev : Evalr ρ) (fuel : Nat) (ih : AllOrig ev fuel)
-include ih
-
-theorem genElem_orig (st : St ρ) e kids (h : OrigOK st) (hs : (Node.elem e kids none).specsFree = true) :
-    OrigOK (Ctl.genElem ev (fuel + 1) st e kids).1 := by
-  unfold Ctl.genElem
-  split
-  · exact h
-  · dsimp only
-    apply orig_clipPost
-    exact orig_of_eq (ih.dispatch { st with depth := st.depth + 1 } e kids (orig_of_eq h rfl) hs) rfl
-
-theorem dispatch_orig (st : St ρ) e kids (h : OrigOK st) (hs : (Node.elem e kids none).specsFree = true) :
-    OrigOK (Ctl.dispatch ev (fuel + 1) st e kids).1 := by
-  unfold Ctl.dispatch
-  dsimp only
-  split; · exact ih.genLoop st e kids h hs
-  split
-  · split
-    · exact orig_of_eq h rfl
-    · exact h
-  split; · exact ih.genReuse st e h
-  split
-  · rename_i hn
-    cases kids with
-    | none => exact ih.genSpecs st h
-    | some ks =>
-      have := (specsFree_some hs).1
-      simp only [bne, hn, Bool.not_true] at this
-      cases this
-  split; · exact orig_genVar ev st e h
-  split; · exact ih.genIf st e kids h hs
-  split; · exact orig_of_eq h rfl
-  split; · exact ih.genFor st e kids h hs
-  split; · exact ih.genGroup st e kids h hs
-  split
-  · exact ih.genContainer st e _ h hs
-  · exact orig_genOther ev st e h
-
-omit ih in
-theorem genSpecs_orig (st : St ρ) (h : OrigOK st) : OrigOK (Ctl.genSpecs ev (fuel + 1) st none).1 := by
-  unfold Ctl.genSpecs
-  split
-  · exact h
-  · exact h
-
-theorem genReuse_orig (st : St ρ) e (h : OrigOK st) : OrigOK (Ctl.genReuse ev (fuel + 1) st e).1 := by
-  unfold Ctl.genReuse
-  apply orig_seq _ _ (orig_withRng st _ h)
-  intro re _
-  have h1 : OrigOK ((withRng st (evalAttributes ev st e)).1.pushElement re) :=
-    orig_of_eq (orig_withRng st _ h) rfl
-  have hbody : OrigOK
-      (seq (reusePrepare ev ((withRng st (evalAttributes ev st e)).1.pushElement re) re) fun st1 ik =>
-        match ik.2 with
-        | some ks => Ctl.processNodes ev fuel st1 (Nodes.cons (.elem ik.1 (some ks) none) .nil)
-        | none => Ctl.genElem ev fuel st1 ik.1 none).1 := by
-    have h2 := orig_reusePrepare ev _ re h1
-    apply orig_seq _ _ h2
-    intro ik hik
-    have hsf := reusePrepare_specsFree' ev _ re ik h1 hik
-    split
-    · rename_i ks hks
-      rw [hks] at hsf
-      exact ih.processNodes _ _ h2 (specsFree_single _ hsf)
-    · exact ih.genElem _ _ _ h2 (specsFree_none _ _)
-  exact orig_of_eq hbody rfl
-
-theorem genIf_orig (st : St ρ) e kids (h : OrigOK st) (hs : (Node.elem e kids none).specsFree = true) :
-    OrigOK (Ctl.genIf ev (fuel + 1) st e kids).1 := by
-  unfold Ctl.genIf
-  split
-  · exact h
-  · split
-    · apply orig_seq _ _ (orig_withRng st _ h)
-      intro b _
-      split
-      · exact ih.processNodes _ _ (orig_withRng st _ h) (specsFree_some hs).2
-      · exact orig_withRng st _ h
-    · exact h
-
-theorem genContainer_orig (st : St ρ) e ks (h : OrigOK st) (hs : (Node.elem e (some ks) none).specsFree = true) :
-    OrigOK (Ctl.genContainer ev (fuel + 1) st e ks).1 := by
-  unfold Ctl.genContainer
-  split
-  · split
-    · exact h
-    · dsimp only
-      exact orig_of_eq (ih.genElem { st with depth := st.depth - 1 } (e.setAttr cs!"text" ‹_›) none
-        (orig_of_eq h rfl) (specsFree_none _ _)) rfl
-  · split
-    · exact h
-    · apply orig_seq _ _ (orig_withRng st _ h)
-      intro ne _
-      have h1 := orig_withRng st (evalAttributes ev st e) h
-      apply orig_seq
-      · split
-        · exact h1
-        · exact ih.processNodes _ _ h1 (specsFree_some hs).2
-      · intro r _
-        apply orig_finishContainer
-        split
-        · exact h1
-        · exact ih.processNodes _ _ h1 (specsFree_some hs).2
-
-theorem genGroup_orig (st : St ρ) e kids (h : OrigOK st) (hs : (Node.elem e kids none).specsFree = true) :
-    OrigOK (Ctl.genGroup ev (fuel + 1) st e kids).1 := by
-  unfold Ctl.genGroup
-  apply orig_seq _ _ (orig_withRng st _ h)
-  intro ne _
-  have hp : OrigOK ((withRng st (evalAttributes ev st e)).1.pushElement e) :=
-    orig_of_eq (orig_withRng st _ h) rfl
-  have hbody : OrigOK
-      (match kids with
-        | none => (((withRng st (evalAttributes ev st e)).1.pushElement e), (Except.ok ([Ev.empty (adapt ne)], none) : Res))
-        | some ks =>
-          seq (Ctl.processNodes ev fuel ((withRng st (evalAttributes ev st e)).1.pushElement e) ks) fun st r =>
-            (st, .ok ([Ev.start (adapt ne)] ++ r.1 ++ [Ev.end_ ne.name], r.2))).1 := by
-    split
-    · exact hp
-    · have h2 := ih.processNodes _ _ hp (specsFree_some hs).2
-      apply orig_seq _ _ h2
-      intro r _
-      exact h2
-  have hpop : OrigOK (popAfter
-      (match kids with
-        | none => (((withRng st (evalAttributes ev st e)).1.pushElement e), (Except.ok ([Ev.empty (adapt ne)], none) : Res))
-        | some ks =>
-          seq (Ctl.processNodes ev fuel ((withRng st (evalAttributes ev st e)).1.pushElement e) ks) fun st r =>
-            (st, .ok ([Ev.start (adapt ne)] ++ r.1 ++ [Ev.end_ ne.name], r.2)))).1 := orig_of_eq hbody rfl
-  apply orig_seq (popAfter _) _ hpop
-  intro r _
-  exact orig_groupFinish ev _ e r hpop
-
-theorem loopIter_orig (st : St ρ) ks c w u n v s i acc bb (h : OrigOK st) (hs : ks.specsFree = true) :
-    OrigOK (Ctl.loopIter ev (fuel + 1) st ks c w u n v s i acc bb).1 := by
-  unfold Ctl.loopIter
-  have h1 := orig_preTest ev st c w i h
-  apply orig_seq _ _ h1
-  intro go _
-  split
-  · exact h1
-  · have h2 := ih.processNodes _ ks (orig_bindLoopVar (preTest ev st c w i).1 n v h1) hs
-    apply orig_seq _ _ h2
-    intro r _
-    split
-    · exact h2
-    · have h3 := orig_postTest ev _ u h2
-      apply orig_seq _ _ h3
-      intro stop _
-      split
-      · exact h3
-      · exact ih.loopIter _ _ _ _ _ _ _ _ _ _ _ h3 hs
-
-theorem genLoop_orig (st : St ρ) e kids (h : OrigOK st) (hs : (Node.elem e kids none).specsFree = true) :
-    OrigOK (Ctl.genLoop ev (fuel + 1) st e kids).1 := by
-  unfold Ctl.genLoop
-  dsimp only
-  split
-  · split
-    · exact h
-    · exact ih.loopIter _ _ _ _ _ _ _ _ _ _ _ (orig_of_eq h rfl) (specsFree_some hs).2
-  all_goals exact h
-
-theorem forIter_orig (st : St ρ) ks v iv items idx acc bb (h : OrigOK st) (hs : ks.specsFree = true) :
-    OrigOK (Ctl.forIter ev (fuel + 1) st ks v iv items idx acc bb).1 := by
-  cases items with
-  | nil => unfold Ctl.forIter; exact h
-  | cons item items =>
-    unfold Ctl.forIter
-    have h2 := ih.processNodes _ ks (orig_bindForVars st v iv item idx h) hs
-    apply orig_seq _ _ h2
-    intro r _
-    split
-    · exact h2
-    · exact ih.forIter _ _ _ _ _ _ _ _ h2 hs
-
-theorem genFor_orig (st : St ρ) e kids (h : OrigOK st) (hs : (Node.elem e kids none).specsFree = true) :
-    OrigOK (Ctl.genFor ev (fuel + 1) st e kids).1 := by
-  unfold Ctl.genFor
-  split
-  · apply orig_seq _ _ (orig_withRng st _ h)
-    intro items _
-    exact ih.forIter _ _ _ _ _ _ _ _ (orig_withRng st _ h) (specsFree_some hs).2
-  all_goals exact h
-
-theorem genNode_orig (st : St ρ) n (h : OrigOK st) (hs : n.specsFree = true) :
-    OrigOK (Ctl.genNode ev (fuel + 1) st n).1 := by
-  cases n with
-  | elem e kids tail =>
-    unfold Ctl.genNode
-    have h1 := ih.genElem st e kids h (by rw [specsFree_tail e kids none tail]; exact hs)
-    apply orig_seq _ _ h1
-    intro r _
-    exact h1
-  | comment c tail => unfold Ctl.genNode; exact h
-  | text t => unfold Ctl.genNode; exact h
-  | cdata c => unfold Ctl.genNode; exact h
-
-theorem onePass_orig (st : St ρ) ts outs bb rem (h : OrigOK st) (hs : ∀ t ∈ ts, t.node.specsFree = true) :
-    OrigOK (Ctl.onePass ev (fuel + 1) st ts outs bb rem).1 := by
-  cases ts with
-  | nil => unfold Ctl.onePass; exact h
-  | cons t ts =>
-    unfold Ctl.onePass
-    have ht := hs t List.mem_cons_self
-    have hts : ∀ t' ∈ ts, t'.node.specsFree = true := fun t' ht' => hs t' (List.mem_cons_of_mem _ ht')
-    have hg := ih.genNode _ t.node (orig_registerEarly ev st t.node h ht) ht
-    dsimp only
-    split
-    · exact ih.onePass _ _ _ _ _ hg hts
-    · split
-      · exact ih.onePass _ _ _ _ _ hg hts
-      · split
-        · exact hg
-        · exact ih.onePass _ _ _ _ _ hg hts
-
-theorem retry_orig (st : St ρ) ts outs bb (h : OrigOK st) (hs : ∀ t ∈ ts, t.node.specsFree = true) :
-    OrigOK (Ctl.retry ev (fuel + 1) st ts outs bb).1 := by
-  cases ts with
-  | nil => unfold Ctl.retry; exact h
-  | cons t ts =>
-    unfold Ctl.retry
-    have h1 := ih.onePass st (t :: ts) outs bb [] h hs
-    apply orig_seq _ _ h1
-    intro r hr
-    have hrem : ∀ t' ∈ r.2.2, t'.node.specsFree = true :=
-      onePass_remain ev (fun t => t.node.specsFree = true) (fun _ _ h => h) fuel st (t :: ts) outs bb [] hs
-        (fun _ h => by cases h) r hr
-    split
-    · exact h1
-    split
-    · split
-      · exact h1
-      · split
-        · exact orig_of_eq h1 rfl
-        · exact ih.retry _ _ _ _ (orig_of_eq h1 rfl) hrem
-    · exact ih.retry _ _ _ _ h1 hrem
-
-theorem processNodes_orig (st : St ρ) ks (h : OrigOK st) (hs : ks.specsFree = true) :
-    OrigOK (Ctl.processNodes ev (fuel + 1) st ks).1 := by
-  unfold Ctl.processNodes
-  have h1 := ih.retry st _ [] none h (specsFree_tags ks hs)
-  apply orig_seq _ _ h1
-  intro r _
-  exact h1
-
-end ostep
-
-theorem allOrig (ev : Evalr ρ) : ∀ fuel, AllOrig ev fuel
-  | 0 => allOrig_zero ev
-  | fuel + 1 =>
-    let ih := allOrig ev fuel
-    { genElem := genElem_orig ev fuel ih
-      dispatch := dispatch_orig ev fuel ih
-      genSpecs := genSpecs_orig ev fuel
-      genReuse := genReuse_orig ev fuel ih
-      genIf := genIf_orig ev fuel ih
-      genContainer := genContainer_orig ev fuel ih
-      genGroup := genGroup_orig ev fuel ih
-      genLoop := genLoop_orig ev fuel ih
-      loopIter := loopIter_orig ev fuel ih
-      genFor := genFor_orig ev fuel ih
-      forIter := forIter_orig ev fuel ih
-      genNode := genNode_orig ev fuel ih
-      onePass := onePass_orig ev fuel ih
-      retry := retry_orig ev fuel ih
-      processNodes := processNodes_orig ev fuel ih }
-
-/-! ### `Ok` = the state-restoration invariant + `OrigOK` -/
-
-theorem ok_of_inv {a b : St ρ} (h : Ok a) (hi : Inv a b) (ho : OrigOK b) : Ok b :=
-  ⟨hi.2.2.2.2.trans h.inSpecs, hi.2.2.1, ho⟩
-
-theorem ok_of_fields {a b : St ρ} (h : Ok a) (h1 : b.inSpecs = a.inSpecs) (h2 : b.scopes = a.scopes)
-    (h3 : b.originals = a.originals) : Ok b :=
-  ⟨h1.trans h.inSpecs, by rw [h2]; exact h.scopes, orig_of_eq h.orig h3⟩
-
-theorem ok_withRng {α : Type} (st : St ρ) (r : Except Err (α × ρ)) (h : Ok st) : Ok (withRng st r).1 :=
-  ok_of_inv h (inv_withRng st r h.scopes) (orig_withRng st r h.orig)
-
-theorem ok_pushElement (st : St ρ) (e : Elem) (h : Ok st) : Ok (st.pushElement e) :=
-  ⟨h.inSpecs, by simp [St.pushElement], orig_of_eq h.orig rfl⟩
+theorem ok_of_fields {a b : St ρ} (h : Ok a) (h1 : b.inSpecs = a.inSpecs) (h2 : b.scopes = a.scopes) : Ok b :=
+  ⟨h1.trans h.inSpecs, by rw [h2]; exact h.scopes⟩
 
 theorem ok_setVar (st : St ρ) (k v : Str) (h : Ok st) : Ok (st.setVar k v) :=
-  ok_of_inv h (inv_setVar st k v h.scopes) (orig_setVar st k v h.orig)
+  ok_of_inv h (inv_setVar st k v h.scopes)
 
 theorem ok_bindLoopVar (st : St ρ) n v (h : Ok st) : Ok (bindLoopVar st n v) :=
-  ok_of_inv h (inv_bindLoopVar st n v h.scopes) (orig_bindLoopVar st n v h.orig)
+  ok_of_inv h (inv_bindLoopVar st n v h.scopes)
 
-theorem ok_bindForVars (st : St ρ) v iv item idx (h : Ok st) : Ok (bindForVars st v iv item idx) :=
-  ok_of_inv h (inv_bindForVars st v iv item idx h.scopes) (orig_bindForVars st v iv item idx h.orig)
+theorem ok_registerEarly (ev : Evalr ρ) (st : St ρ) (n : Node) (h : Ok st) : Ok (registerEarly ev st n) :=
+  ok_of_inv h (inv_registerEarly ev st n h.scopes)
 
-theorem ok_preTest (ev : Evalr ρ) (st : St ρ) c w i (h : Ok st) : Ok (preTest ev st c w i).1 :=
-  ok_of_inv h (inv_preTest ev st c w i h.scopes) (orig_preTest ev st c w i h.orig)
-
-theorem ok_postTest (ev : Evalr ρ) (st : St ρ) u (h : Ok st) : Ok (postTest ev st u).1 :=
-  ok_of_inv h (inv_postTest ev st u h.scopes) (orig_postTest ev st u h.orig)
-
-theorem ok_registerEarly (ev : Evalr ρ) (st : St ρ) (n : Node) (h : Ok st) (hn : n.specsFree = true) :
-    Ok (registerEarly ev st n) :=
-  ok_of_inv h (inv_registerEarly ev st n h.scopes) (orig_registerEarly ev st n h.orig hn)
-
-theorem ok_reusePrepare (ev : Evalr ρ) (st : St ρ) (re : Elem) (h : Ok st) : Ok (reusePrepare ev st re).1 :=
-  ok_of_inv h (inv_reusePrepare ev st re h.scopes) (orig_reusePrepare ev st re h.orig)
-
-theorem reusePrepare_specsFree (ev : Evalr ρ) (st : St ρ) (re : Elem) (ik : Elem × Option Nodes) (h : Ok st)
-    (hr : (reusePrepare ev st re).2 = .ok ik) : (Node.elem ik.1 ik.2 none).specsFree = true :=
-  reusePrepare_specsFree' ev st re ik h.orig hr
-
-/-- **`Ok` is kept by every function of the mutual block, all fuel, every outcome** -/
 theorem allOk (ev : Evalr ρ) : ∀ fuel, AllOk ev fuel := fun fuel =>
   let I := allInv ev fuel
-  let O := allOrig ev fuel
-  { genElem := fun st e kids h hs => ok_of_inv h (I.genElem st e kids h.scopes) (O.genElem st e kids h.orig hs)
-    dispatch := fun st e kids h hs => ok_of_inv h (I.dispatch st e kids h.scopes) (O.dispatch st e kids h.orig hs)
-    genSpecs := fun st h => ok_of_inv h (I.genSpecs st none h.scopes) (O.genSpecs st h.orig)
-    genReuse := fun st e h => ok_of_inv h (I.genReuse st e h.scopes) (O.genReuse st e h.orig)
-    genIf := fun st e kids h hs => ok_of_inv h (I.genIf st e kids h.scopes) (O.genIf st e kids h.orig hs)
-    genContainer := fun st e ks h hs =>
-      ok_of_inv h (I.genContainer st e ks h.scopes) (O.genContainer st e ks h.orig hs)
-    genGroup := fun st e kids h hs => ok_of_inv h (I.genGroup st e kids h.scopes) (O.genGroup st e kids h.orig hs)
-    genLoop := fun st e kids h hs => ok_of_inv h (I.genLoop st e kids h.scopes) (O.genLoop st e kids h.orig hs)
-    loopIter := fun st ks c w u n v s i acc bb h hs =>
-      ok_of_inv h (I.loopIter st ks c w u n v s i acc bb h.scopes) (O.loopIter st ks c w u n v s i acc bb h.orig hs)
-    genFor := fun st e kids h hs => ok_of_inv h (I.genFor st e kids h.scopes) (O.genFor st e kids h.orig hs)
-    forIter := fun st ks v iv items idx acc bb h hs =>
-      ok_of_inv h (I.forIter st ks v iv items idx acc bb h.scopes) (O.forIter st ks v iv items idx acc bb h.orig hs)
-    genNode := fun st n h hs => ok_of_inv h (I.genNode st n h.scopes) (O.genNode st n h.orig hs)
-    onePass := fun st ts outs bb rem h hs =>
-      ok_of_inv h (I.onePass st ts outs bb rem h.scopes) (O.onePass st ts outs bb rem h.orig hs)
-    retry := fun st ts outs bb h hs => ok_of_inv h (I.retry st ts outs bb h.scopes) (O.retry st ts outs bb h.orig hs)
-    processNodes := fun st ks h hs => ok_of_inv h (I.processNodes st ks h.scopes) (O.processNodes st ks h.orig hs) }
+  { genElem := fun st e kids h => ok_of_inv h (I.genElem st e kids h.scopes)
+    dispatch := fun st e kids h => ok_of_inv h (I.dispatch st e kids h.scopes)
+    genSpecs := fun st kids h => ok_of_inv h (I.genSpecs st kids h.scopes)
+    genReuse := fun st e h => ok_of_inv h (I.genReuse st e h.scopes)
+    genIf := fun st e kids h => ok_of_inv h (I.genIf st e kids h.scopes)
+    genContainer := fun st e ks h => ok_of_inv h (I.genContainer st e ks h.scopes)
+    genGroup := fun st e kids h => ok_of_inv h (I.genGroup st e kids h.scopes)
+    genLoop := fun st e kids h => ok_of_inv h (I.genLoop st e kids h.scopes)
+    loopIter := fun st ks c w u n v s i acc bb h => ok_of_inv h (I.loopIter st ks c w u n v s i acc bb h.scopes)
+    genFor := fun st e kids h => ok_of_inv h (I.genFor st e kids h.scopes)
+    forIter := fun st ks v iv items idx acc bb h => ok_of_inv h (I.forIter st ks v iv items idx acc bb h.scopes)
+    genNode := fun st n h => ok_of_inv h (I.genNode st n h.scopes)
+    onePass := fun st ts outs bb rem h => ok_of_inv h (I.onePass st ts outs bb rem h.scopes)
+    retry := fun st ts outs bb h => ok_of_inv h (I.retry st ts outs bb h.scopes)
+    processNodes := fun st ks h => ok_of_inv h (I.processNodes st ks h.scopes) }
 
 /-! ## (A) fuel robustness -/
-
 
 theorem nf_seq_left {α β : Type} {x : St ρ × Except CErr α} {g : St ρ → α → St ρ × Except CErr β}
     (hnf : NF (seq x g)) : NF x := by
@@ -1012,18 +162,12 @@ theorem clipPost_fuel (ev : Evalr ρ) (e : Elem) (x : St ρ × Res) (h : x.2 = .
 
 theorem nf_popAfter {α : Type} {x : St ρ × Except CErr α} (h : NF (popAfter x)) : NF x := h
 
-theorem specsFree_kids' {e : Elem} {ks : Nodes} {tail : Option Str}
-    (h : (Node.elem e (some ks) tail).specsFree = true) : ks.specsFree = true := by
-  simp only [Node.specsFree, Bool.and_eq_true] at h
-  exact h.2
-
-
 section step
 variable (ev : Evalr ρ) (fuel : Nat) (ih : AllMono ev fuel)
 include ih
 
-theorem genElem_mstep (st : St ρ) e kids f' (hf : fuel + 1 ≤ f') (hok : Ok st)
-    (hs : (Node.elem e kids none).specsFree = true) (hnf : NF (Ctl.genElem ev (fuel + 1) st e kids)) :
+theorem genElem_mstep (st : St ρ) e kids f' (hf : fuel + 1 ≤ f')
+    (hnf : NF (Ctl.genElem ev (fuel + 1) st e kids)) :
     Ctl.genElem ev f' st e kids = Ctl.genElem ev (fuel + 1) st e kids := by
   obtain ⟨f0, rfl⟩ : ∃ f0, f' = f0 + 1 := ⟨f' - 1, by omega⟩
   rw [Ctl.genElem] at hnf
@@ -1032,11 +176,11 @@ theorem genElem_mstep (st : St ρ) e kids f' (hf : fuel + 1 ≤ f') (hok : Ok st
   · simp only [hd, if_true]
   · simp only [hd, if_false] at hnf ⊢
     have hsub := ih.dispatch { st with depth := st.depth + 1 } e kids f0 (by omega)
-      (ok_of_fields hok rfl rfl rfl) hs (fun h => hnf (clipPost_fuel _ _ _ h))
+      (fun h => hnf (clipPost_fuel _ _ _ h))
     rw [hsub]
 
-theorem dispatch_mstep (st : St ρ) e kids f' (hf : fuel + 1 ≤ f') (hok : Ok st)
-    (hs : (Node.elem e kids none).specsFree = true) (hnf : NF (Ctl.dispatch ev (fuel + 1) st e kids)) :
+theorem dispatch_mstep (st : St ρ) e kids f' (hf : fuel + 1 ≤ f')
+    (hnf : NF (Ctl.dispatch ev (fuel + 1) st e kids)) :
     Ctl.dispatch ev f' st e kids = Ctl.dispatch ev (fuel + 1) st e kids := by
   obtain ⟨f0, rfl⟩ : ∃ f0, f' = f0 + 1 := ⟨f' - 1, by omega⟩
   have hf0 : fuel ≤ f0 := by omega
@@ -1044,53 +188,65 @@ theorem dispatch_mstep (st : St ρ) e kids f' (hf : fuel + 1 ≤ f') (hok : Ok s
   dsimp only at hnf ⊢
   by_cases h1 : (e.name == cs!"loop") = true
   · simp only [h1, if_true] at hnf ⊢
-    exact ih.genLoop st e kids f0 hf0 hok hs hnf
+    exact ih.genLoop st e kids f0 hf0 hnf
   simp only [h1, Bool.false_eq_true, if_false] at hnf ⊢
   by_cases h2 : (e.name == cs!"config") = true
   · simp only [h2, if_true]
   simp only [h2, Bool.false_eq_true, if_false] at hnf ⊢
   by_cases h3 : (e.name == cs!"reuse") = true
   · simp only [h3, if_true] at hnf ⊢
-    exact ih.genReuse st e f0 hf0 hok hnf
+    exact ih.genReuse st e f0 hf0 hnf
   simp only [h3, Bool.false_eq_true, if_false] at hnf ⊢
   by_cases h4 : (e.name == cs!"specs") = true
   · simp only [h4, if_true] at hnf ⊢
-    cases kids with
-    | some ks =>
-      simp only [Node.specsFree, Bool.and_eq_true, bne_iff_ne, ne_eq] at hs
-      exact absurd (by simpa using h4) hs.1
-    | none => exact ih.genSpecs st f0 hf0 hnf
+    exact ih.genSpecs st kids f0 hf0 hnf
   simp only [h4, Bool.false_eq_true, if_false] at hnf ⊢
   by_cases h5 : (e.name == cs!"var") = true
   · simp only [h5, if_true]
   simp only [h5, Bool.false_eq_true, if_false] at hnf ⊢
   by_cases h6 : (e.name == cs!"if") = true
   · simp only [h6, if_true] at hnf ⊢
-    exact ih.genIf st e kids f0 hf0 hok hs hnf
+    exact ih.genIf st e kids f0 hf0 hnf
   simp only [h6, Bool.false_eq_true, if_false] at hnf ⊢
   by_cases h7 : (e.name == cs!"defaults") = true
   · simp only [h7, if_true]
   simp only [h7, Bool.false_eq_true, if_false] at hnf ⊢
   by_cases h8 : (e.name == cs!"for") = true
   · simp only [h8, if_true] at hnf ⊢
-    exact ih.genFor st e kids f0 hf0 hok hs hnf
+    exact ih.genFor st e kids f0 hf0 hnf
   simp only [h8, Bool.false_eq_true, if_false] at hnf ⊢
   by_cases h9 : (e.name == ['g'] || e.name == cs!"symbol") = true
   · simp only [h9, if_true] at hnf ⊢
-    exact ih.genGroup st e kids f0 hf0 hok hs hnf
+    exact ih.genGroup st e kids f0 hf0 hnf
   simp only [h9, Bool.false_eq_true, if_false] at hnf ⊢
   cases kids with
-  | some ks => exact ih.genContainer st e ks f0 hf0 hok hs hnf
+  | some ks => exact ih.genContainer st e ks f0 hf0 hnf
   | none => rfl
 
-omit ih in
-theorem genSpecs_mstep (st : St ρ) f' (hf : fuel + 1 ≤ f') (_hnf : NF (Ctl.genSpecs ev (fuel + 1) st none)) :
-    Ctl.genSpecs ev f' st none = Ctl.genSpecs ev (fuel + 1) st none := by
+/-- a fuel error inside `<specs>` comes out of it (`onePass` treats it as final there too) -/
+theorem genSpecs_mstep (st : St ρ) kids f' (hf : fuel + 1 ≤ f') (hnf : NF (Ctl.genSpecs ev (fuel + 1) st kids)) :
+    Ctl.genSpecs ev f' st kids = Ctl.genSpecs ev (fuel + 1) st kids := by
   obtain ⟨f0, rfl⟩ : ∃ f0, f' = f0 + 1 := ⟨f' - 1, by omega⟩
+  have hf0 : fuel ≤ f0 := by omega
+  revert hnf
   unfold Ctl.genSpecs
-  rfl
+  split
+  · intro _; rfl
+  · split
+    · rename_i ks
+      intro hnf
+      dsimp only at hnf ⊢
+      have hsub := ih.processNodes { st with inSpecs := true } ks f0 hf0 (by
+        intro h
+        apply hnf
+        show (match (Ctl.processNodes ev fuel { st with inSpecs := true } ks).2 with
+          | .ok _ => (Except.ok ([], none) : Res)
+          | .error er => .error er) = _
+        rw [h])
+      rw [hsub]
+    · intro _; rfl
 
-theorem genReuse_mstep (st : St ρ) e f' (hf : fuel + 1 ≤ f') (hok : Ok st)
+theorem genReuse_mstep (st : St ρ) e f' (hf : fuel + 1 ≤ f')
     (hnf : NF (Ctl.genReuse ev (fuel + 1) st e)) :
     Ctl.genReuse ev f' st e = Ctl.genReuse ev (fuel + 1) st e := by
   obtain ⟨f0, rfl⟩ : ∃ f0, f' = f0 + 1 := ⟨f' - 1, by omega⟩
@@ -1102,20 +258,16 @@ theorem genReuse_mstep (st : St ρ) e f' (hf : fuel + 1 ≤ f') (hok : Ok st)
   unfold popAfter
   rw [seq_mono hnf2 (fun _ => rfl) ?_]
   intro ik hik hnf3
-  have hok1 := ok_pushElement _ re (ok_withRng st (evalAttributes ev st e) hok)
-  have hok2 := ok_reusePrepare ev _ re hok1
-  have hsf := reusePrepare_specsFree ev _ re ik hok1 hik
   cases hk : ik.2 with
   | some ks =>
-    rw [hk] at hsf
     simp only [hk] at hnf3 ⊢
-    exact ih.processNodes _ _ f0 hf0 hok2 (by simp [Nodes.specsFree, hsf]) hnf3
+    exact ih.processNodes _ _ f0 hf0 hnf3
   | none =>
     simp only [hk] at hnf3 ⊢
-    exact ih.genElem _ _ _ f0 hf0 hok2 rfl hnf3
+    exact ih.genElem _ _ _ f0 hf0 hnf3
 
-theorem genIf_mstep (st : St ρ) e kids f' (hf : fuel + 1 ≤ f') (hok : Ok st)
-    (hs : (Node.elem e kids none).specsFree = true) (hnf : NF (Ctl.genIf ev (fuel + 1) st e kids)) :
+theorem genIf_mstep (st : St ρ) e kids f' (hf : fuel + 1 ≤ f')
+    (hnf : NF (Ctl.genIf ev (fuel + 1) st e kids)) :
     Ctl.genIf ev f' st e kids = Ctl.genIf ev (fuel + 1) st e kids := by
   obtain ⟨f0, rfl⟩ : ∃ f0, f' = f0 + 1 := ⟨f' - 1, by omega⟩
   have hf0 : fuel ≤ f0 := by omega
@@ -1132,11 +284,11 @@ theorem genIf_mstep (st : St ρ) e kids f' (hf : fuel + 1 ≤ f') (hok : Ok st)
       | false => rfl
       | true =>
         simp only [if_true] at hnf1 ⊢
-        exact ih.processNodes _ ks f0 hf0 (ok_withRng st _ hok) (specsFree_kids' hs) hnf1
+        exact ih.processNodes _ ks f0 hf0 hnf1
     · intro _; rfl
 
-theorem genContainer_mstep (st : St ρ) e ks f' (hf : fuel + 1 ≤ f') (hok : Ok st)
-    (hs : (Node.elem e (some ks) none).specsFree = true) (hnf : NF (Ctl.genContainer ev (fuel + 1) st e ks)) :
+theorem genContainer_mstep (st : St ρ) e ks f' (hf : fuel + 1 ≤ f')
+    (hnf : NF (Ctl.genContainer ev (fuel + 1) st e ks)) :
     Ctl.genContainer ev f' st e ks = Ctl.genContainer ev (fuel + 1) st e ks := by
   obtain ⟨f0, rfl⟩ : ∃ f0, f' = f0 + 1 := ⟨f' - 1, by omega⟩
   have hf0 : fuel ≤ f0 := by omega
@@ -1147,7 +299,6 @@ theorem genContainer_mstep (st : St ρ) e ks f' (hf : fuel + 1 ≤ f') (hok : Ok
     · intro _; rfl
     · intro hnf
       have hsub := fun x => ih.genElem { st with depth := st.depth - 1 } x none f0 hf0
-        (ok_of_fields hok rfl rfl rfl) rfl
       dsimp only at hnf ⊢
       rw [hsub _ (fun h => hnf h)]
   · split
@@ -1161,10 +312,10 @@ theorem genContainer_mstep (st : St ρ) e ks f' (hf : fuel + 1 ≤ f') (hok : Ok
       · rfl
       · rename_i hin
         simp only [hin] at hnf2
-        exact ih.processNodes _ ks f0 hf0 (ok_withRng st _ hok) (specsFree_kids' hs) hnf2
+        exact ih.processNodes _ ks f0 hf0 hnf2
 
-theorem genGroup_mstep (st : St ρ) e kids f' (hf : fuel + 1 ≤ f') (hok : Ok st)
-    (hs : (Node.elem e kids none).specsFree = true) (hnf : NF (Ctl.genGroup ev (fuel + 1) st e kids)) :
+theorem genGroup_mstep (st : St ρ) e kids f' (hf : fuel + 1 ≤ f')
+    (hnf : NF (Ctl.genGroup ev (fuel + 1) st e kids)) :
     Ctl.genGroup ev f' st e kids = Ctl.genGroup ev (fuel + 1) st e kids := by
   obtain ⟨f0, rfl⟩ : ∃ f0, f' = f0 + 1 := ⟨f' - 1, by omega⟩
   have hf0 : fuel ≤ f0 := by omega
@@ -1179,11 +330,10 @@ theorem genGroup_mstep (st : St ρ) e kids f' (hf : fuel + 1 ≤ f') (hok : Ok s
     have hnf3 := nf_popAfter hnf2
     dsimp only at hnf3 ⊢
     unfold popAfter
-    rw [seq_mono hnf3 (fun h => ih.processNodes _ ks f0 hf0
-      (ok_pushElement _ e (ok_withRng st _ hok)) (specsFree_kids' hs) h) (fun _ _ _ => rfl)]
+    rw [seq_mono hnf3 (fun h => ih.processNodes _ ks f0 hf0 h) (fun _ _ _ => rfl)]
 
-theorem genLoop_mstep (st : St ρ) e kids f' (hf : fuel + 1 ≤ f') (hok : Ok st)
-    (hs : (Node.elem e kids none).specsFree = true) (hnf : NF (Ctl.genLoop ev (fuel + 1) st e kids)) :
+theorem genLoop_mstep (st : St ρ) e kids f' (hf : fuel + 1 ≤ f')
+    (hnf : NF (Ctl.genLoop ev (fuel + 1) st e kids)) :
     Ctl.genLoop ev f' st e kids = Ctl.genLoop ev (fuel + 1) st e kids := by
   obtain ⟨f0, rfl⟩ : ∃ f0, f' = f0 + 1 := ⟨f' - 1, by omega⟩
   have hf0 : fuel ≤ f0 := by omega
@@ -1194,11 +344,11 @@ theorem genLoop_mstep (st : St ρ) e kids f' (hf : fuel + 1 ≤ f') (hok : Ok st
   · split
     · intro _; rfl
     · intro hnf
-      exact ih.loopIter _ _ _ _ _ _ _ _ _ _ _ f0 hf0 (ok_of_fields hok rfl rfl rfl) (specsFree_kids' hs) hnf
+      exact ih.loopIter _ _ _ _ _ _ _ _ _ _ _ f0 hf0 hnf
   · intro _; rfl
 
-theorem loopIter_mstep (st : St ρ) ks c w u n v s i acc bb f' (hf : fuel + 1 ≤ f') (hok : Ok st)
-    (hs : ks.specsFree = true) (hnf : NF (Ctl.loopIter ev (fuel + 1) st ks c w u n v s i acc bb)) :
+theorem loopIter_mstep (st : St ρ) ks c w u n v s i acc bb f' (hf : fuel + 1 ≤ f')
+    (hnf : NF (Ctl.loopIter ev (fuel + 1) st ks c w u n v s i acc bb)) :
     Ctl.loopIter ev f' st ks c w u n v s i acc bb = Ctl.loopIter ev (fuel + 1) st ks c w u n v s i acc bb := by
   obtain ⟨f0, rfl⟩ : ∃ f0, f' = f0 + 1 := ⟨f' - 1, by omega⟩
   have hf0 : fuel ≤ f0 := by omega
@@ -1209,10 +359,8 @@ theorem loopIter_mstep (st : St ρ) ks c w u n v s i acc bb f' (hf : fuel + 1 
   | false => rfl
   | true =>
     simp only [Bool.not_true, Bool.false_eq_true, if_false] at hnf1 ⊢
-    have hok1 := ok_bindLoopVar _ n v (ok_preTest ev st c w i hok)
-    refine seq_mono hnf1 (fun h => ih.processNodes _ ks f0 hf0 hok1 hs h) ?_
+    refine seq_mono hnf1 (fun h => ih.processNodes _ ks f0 hf0 h) ?_
     intro r hr hnf2
-    have hok2 := (allOk ev fuel).processNodes _ ks hok1 hs
     split
     · rfl
     · rename_i hlim
@@ -1223,10 +371,10 @@ theorem loopIter_mstep (st : St ρ) ks c w u n v s i acc bb f' (hf : fuel + 1 
       | true => rfl
       | false =>
         simp only [Bool.false_eq_true, if_false] at hnf3 ⊢
-        exact ih.loopIter _ _ _ _ _ _ _ _ _ _ _ f0 hf0 (ok_postTest ev _ u hok2) hs hnf3
+        exact ih.loopIter _ _ _ _ _ _ _ _ _ _ _ f0 hf0 hnf3
 
-theorem genFor_mstep (st : St ρ) e kids f' (hf : fuel + 1 ≤ f') (hok : Ok st)
-    (hs : (Node.elem e kids none).specsFree = true) (hnf : NF (Ctl.genFor ev (fuel + 1) st e kids)) :
+theorem genFor_mstep (st : St ρ) e kids f' (hf : fuel + 1 ≤ f')
+    (hnf : NF (Ctl.genFor ev (fuel + 1) st e kids)) :
     Ctl.genFor ev f' st e kids = Ctl.genFor ev (fuel + 1) st e kids := by
   obtain ⟨f0, rfl⟩ : ∃ f0, f' = f0 + 1 := ⟨f' - 1, by omega⟩
   have hf0 : fuel ≤ f0 := by omega
@@ -1236,11 +384,11 @@ theorem genFor_mstep (st : St ρ) e kids f' (hf : fuel + 1 ≤ f') (hok : Ok st)
   · intro hnf
     refine seq_mono hnf (fun _ => rfl) ?_
     intro items hitems hnf1
-    exact ih.forIter _ _ _ _ _ _ _ _ f0 hf0 (ok_withRng st _ hok) (specsFree_kids' hs) hnf1
+    exact ih.forIter _ _ _ _ _ _ _ _ f0 hf0 hnf1
   · intro _; rfl
 
-theorem forIter_mstep (st : St ρ) ks v iv items idx acc bb f' (hf : fuel + 1 ≤ f') (hok : Ok st)
-    (hs : ks.specsFree = true) (hnf : NF (Ctl.forIter ev (fuel + 1) st ks v iv items idx acc bb)) :
+theorem forIter_mstep (st : St ρ) ks v iv items idx acc bb f' (hf : fuel + 1 ≤ f')
+    (hnf : NF (Ctl.forIter ev (fuel + 1) st ks v iv items idx acc bb)) :
     Ctl.forIter ev f' st ks v iv items idx acc bb = Ctl.forIter ev (fuel + 1) st ks v iv items idx acc bb := by
   obtain ⟨f0, rfl⟩ : ∃ f0, f' = f0 + 1 := ⟨f' - 1, by omega⟩
   have hf0 : fuel ≤ f0 := by omega
@@ -1248,72 +396,74 @@ theorem forIter_mstep (st : St ρ) ks v iv items idx acc bb f' (hf : fuel + 1 
   | nil => unfold Ctl.forIter; rfl
   | cons item items =>
     unfold Ctl.forIter at hnf ⊢
-    have hok1 := ok_bindForVars st v iv item idx hok
-    refine seq_mono hnf (fun h => ih.processNodes _ ks f0 hf0 hok1 hs h) ?_
+    refine seq_mono hnf (fun h => ih.processNodes _ ks f0 hf0 h) ?_
     intro r hr hnf1
-    have hok2 := (allOk ev fuel).processNodes _ ks hok1 hs
     split
     · rfl
     · rename_i hlim
       simp only [hlim, if_false] at hnf1
-      exact ih.forIter _ _ _ _ _ _ _ _ f0 hf0 hok2 hs hnf1
+      exact ih.forIter _ _ _ _ _ _ _ _ f0 hf0 hnf1
 
-theorem genNode_mstep (st : St ρ) n f' (hf : fuel + 1 ≤ f') (hok : Ok st)
-    (hs : n.specsFree = true) (hnf : NF (Ctl.genNode ev (fuel + 1) st n)) :
+theorem genNode_mstep (st : St ρ) n f' (hf : fuel + 1 ≤ f')
+    (hnf : NF (Ctl.genNode ev (fuel + 1) st n)) :
     Ctl.genNode ev f' st n = Ctl.genNode ev (fuel + 1) st n := by
   obtain ⟨f0, rfl⟩ : ∃ f0, f' = f0 + 1 := ⟨f' - 1, by omega⟩
   have hf0 : fuel ≤ f0 := by omega
   cases n with
   | elem e kids tail =>
     unfold Ctl.genNode at hnf ⊢
-    have hs' : (Node.elem e kids none).specsFree = true := by
-      rw [specsFree_tail e kids none tail]; exact hs
-    exact seq_mono hnf (fun h => ih.genElem st e kids f0 hf0 hok hs' h) (fun _ _ _ => rfl)
+    exact seq_mono hnf (fun h => ih.genElem st e kids f0 hf0 h) (fun _ _ _ => rfl)
   | comment c tail => unfold Ctl.genNode; rfl
   | text t => unfold Ctl.genNode; rfl
   | cdata c => unfold Ctl.genNode; rfl
 
-theorem onePass_mstep (st : St ρ) ts outs bb rem f' (hf : fuel + 1 ≤ f') (hok : Ok st)
-    (hs : ∀ t ∈ ts, t.node.specsFree = true) (hnf : NF (Ctl.onePass ev (fuel + 1) st ts outs bb rem)) :
+theorem onePass_mstep (st : St ρ) ts outs bb rem f' (hf : fuel + 1 ≤ f')
+    (hnf : NF (Ctl.onePass ev (fuel + 1) st ts outs bb rem)) :
     Ctl.onePass ev f' st ts outs bb rem = Ctl.onePass ev (fuel + 1) st ts outs bb rem := by
   obtain ⟨f0, rfl⟩ : ∃ f0, f' = f0 + 1 := ⟨f' - 1, by omega⟩
   have hf0 : fuel ≤ f0 := by omega
   cases ts with
   | nil => unfold Ctl.onePass; rfl
   | cons t ts =>
-    have hst : t.node.specsFree = true := hs t List.mem_cons_self
-    have hsts : ∀ x ∈ ts, x.node.specsFree = true := fun x hx => hs x (List.mem_cons_of_mem _ hx)
-    have hok1 := ok_registerEarly ev st t.node hok hst
-    have hok2 := (allOk ev fuel).genNode _ t.node hok1 hst
     unfold Ctl.onePass at hnf ⊢
     dsimp only at hnf ⊢
     have hsub : Ctl.genNode ev f0 (registerEarly ev st t.node) t.node =
         Ctl.genNode ev fuel (registerEarly ev st t.node) t.node := by
-      refine ih.genNode _ t.node f0 hf0 hok1 hst ?_
+      refine ih.genNode _ t.node f0 hf0 ?_
       intro h
       apply hnf
-      simp only [hok2.inSpecs, Bool.false_eq_true, if_false, h]
+      rw [h]
       rfl
     rw [hsub]
-    generalize Ctl.genNode ev fuel (registerEarly ev st t.node) t.node = r at hnf hok2 ⊢
+    generalize Ctl.genNode ev fuel (registerEarly ev st t.node) t.node = r at hnf ⊢
     obtain ⟨s1, res⟩ := r
-    have hsp : s1.inSpecs = false := hok2.inSpecs
-    replace hok2 : Ok s1 := hok2
-    simp only [hsp, Bool.false_eq_true, if_false] at hnf ⊢
     cases res with
     | ok a =>
       obtain ⟨evs, b⟩ := a
-      exact ih.onePass _ _ _ _ _ f0 hf0 hok2 hsts hnf
+      dsimp only at hnf ⊢
+      split
+      · rename_i hsp
+        simp only [hsp, if_true] at hnf
+        exact ih.onePass _ _ _ _ _ f0 hf0 hnf
+      · rename_i hsp
+        simp only [hsp] at hnf
+        exact ih.onePass _ _ _ _ _ f0 hf0 hnf
     | error er =>
       dsimp only at hnf ⊢
       split
       · rfl
       · rename_i her
         simp only [her] at hnf
-        exact ih.onePass _ _ _ _ _ f0 hf0 hok2 hsts hnf
+        split
+        · rename_i hsp
+          simp only [hsp, if_true] at hnf
+          exact ih.onePass _ _ _ _ _ f0 hf0 hnf
+        · rename_i hsp
+          simp only [hsp] at hnf
+          exact ih.onePass _ _ _ _ _ f0 hf0 hnf
 
-theorem retry_mstep (st : St ρ) ts outs bb f' (hf : fuel + 1 ≤ f') (hok : Ok st)
-    (hs : ∀ t ∈ ts, t.node.specsFree = true) (hnf : NF (Ctl.retry ev (fuel + 1) st ts outs bb)) :
+theorem retry_mstep (st : St ρ) ts outs bb f' (hf : fuel + 1 ≤ f')
+    (hnf : NF (Ctl.retry ev (fuel + 1) st ts outs bb)) :
     Ctl.retry ev f' st ts outs bb = Ctl.retry ev (fuel + 1) st ts outs bb := by
   obtain ⟨f0, rfl⟩ : ∃ f0, f' = f0 + 1 := ⟨f' - 1, by omega⟩
   have hf0 : fuel ≤ f0 := by omega
@@ -1321,12 +471,8 @@ theorem retry_mstep (st : St ρ) ts outs bb f' (hf : fuel + 1 ≤ f') (hok : Ok 
   | nil => unfold Ctl.retry; rfl
   | cons t ts =>
     unfold Ctl.retry at hnf ⊢
-    refine seq_mono hnf (fun h => ih.onePass st _ _ _ _ f0 hf0 hok hs h) ?_
+    refine seq_mono hnf (fun h => ih.onePass st _ _ _ _ f0 hf0 h) ?_
     intro r hr hnf1
-    have hok1 := (allOk ev fuel).onePass st (t :: ts) outs bb [] hok hs
-    have hpend : ∀ x ∈ r.2.2, x.node.specsFree = true :=
-      onePass_remain ev (fun t => t.node.specsFree = true) (fun _ _ h => h) fuel st (t :: ts) outs bb [] hs
-        (fun _ h => by cases h) r hr
     split
     · rfl
     rename_i hgen
@@ -1342,18 +488,18 @@ theorem retry_mstep (st : St ρ) ts outs bb f' (hf : fuel + 1 ≤ f') (hok : Ok 
         · rfl
         · rename_i hidle
           simp only [hidle, if_false] at hnf1
-          exact ih.retry _ _ _ _ f0 hf0 (ok_of_fields hok1 rfl rfl rfl) hpend hnf1
+          exact ih.retry _ _ _ _ f0 hf0 hnf1
     · rename_i hlen
       simp only [hlen] at hnf1
-      exact ih.retry _ _ _ _ f0 hf0 hok1 hpend hnf1
+      exact ih.retry _ _ _ _ f0 hf0 hnf1
 
-theorem processNodes_mstep (st : St ρ) ks f' (hf : fuel + 1 ≤ f') (hok : Ok st)
-    (hs : ks.specsFree = true) (hnf : NF (Ctl.processNodes ev (fuel + 1) st ks)) :
+theorem processNodes_mstep (st : St ρ) ks f' (hf : fuel + 1 ≤ f')
+    (hnf : NF (Ctl.processNodes ev (fuel + 1) st ks)) :
     Ctl.processNodes ev f' st ks = Ctl.processNodes ev (fuel + 1) st ks := by
   obtain ⟨f0, rfl⟩ : ∃ f0, f' = f0 + 1 := ⟨f' - 1, by omega⟩
   have hf0 : fuel ≤ f0 := by omega
   unfold Ctl.processNodes at hnf ⊢
-  exact seq_mono hnf (fun h => ih.retry st _ _ _ f0 hf0 hok (specsFree_tags ks hs) h) (fun _ _ _ => rfl)
+  exact seq_mono hnf (fun h => ih.retry st _ _ _ f0 hf0 h) (fun _ _ _ => rfl)
 
 end step
 
@@ -1363,15 +509,15 @@ theorem allMono_zero (ev : Evalr ρ) : AllMono ev 0 := by
       Ctl.genGroup, Ctl.genLoop, Ctl.loopIter, Ctl.genFor, Ctl.forIter, Ctl.genNode, Ctl.onePass, Ctl.retry,
       Ctl.processNodes]
 
-/-- **(A) fuel robustness, all 15 functions**: on `Ok` states and specs-free trees, a result that is not the fuel
-    error is the result for every larger fuel (same state, same value) -/
+/-- **(A) fuel robustness, all 15 functions, no side condition**: a result that is not the fuel error is the result
+    for every larger fuel (same state, same value) -/
 theorem allMono (ev : Evalr ρ) : ∀ fuel, AllMono ev fuel
   | 0 => allMono_zero ev
   | fuel + 1 =>
     let ih := allMono ev fuel
     { genElem := genElem_mstep ev fuel ih
       dispatch := dispatch_mstep ev fuel ih
-      genSpecs := genSpecs_mstep ev fuel
+      genSpecs := genSpecs_mstep ev fuel ih
       genReuse := genReuse_mstep ev fuel ih
       genIf := genIf_mstep ev fuel ih
       genContainer := genContainer_mstep ev fuel ih
@@ -1386,10 +532,11 @@ theorem allMono (ev : Evalr ρ) : ∀ fuel, AllMono ev fuel
       processNodes := processNodes_mstep ev fuel ih }
 
 /-- (A) for the entry point, in plain form: once `processNodes` does not run out of fuel, more fuel changes nothing -/
-theorem processNodes_fuel_robust (ev : Evalr ρ) (f f' : Nat) (st : St ρ) (ks : Nodes) (h : f ≤ f') (hok : Ok st)
-    (hks : ks.specsFree = true) (hnf : NF (processNodes ev f st ks)) :
+theorem processNodes_fuel_robust (ev : Evalr ρ) (f f' : Nat) (st : St ρ) (ks : Nodes) (h : f ≤ f')
+    (hnf : NF (processNodes ev f st ks)) :
     processNodes ev f' st ks = processNodes ev f st ks :=
-  (allMono ev f).processNodes st ks f' h hok hks hnf
+  (allMono ev f).processNodes st ks f' h hnf
+
 
 /-! ## (B) the unrolling theorem -/
 
@@ -1432,17 +579,14 @@ theorem toList_ofList (l : List Node) : (Nodes.ofList l).toList = l := by
   | nil => rfl
   | cons n r ih => simp [Nodes.ofList, Nodes.toList, ih]
 
-theorem specsFree_iff : ∀ (ks : Nodes), ks.specsFree = true ↔ ∀ n ∈ ks.toList, n.specsFree = true
-  | .nil => by simp [Nodes.specsFree, Nodes.toList]
-  | .cons n r => by simp [Nodes.specsFree, Nodes.toList, specsFree_iff r]
 
 /-! ### two fuels that both avoid the fuel error agree -/
 
-theorem genNode_agree (ev : Evalr ρ) (f g : Nat) (st : St ρ) (n : Node) (hok : Ok st) (hn : n.specsFree = true)
+theorem genNode_agree (ev : Evalr ρ) (f g : Nat) (st : St ρ) (n : Node)
     (hf : NF (genNode ev f st n)) (hg : NF (genNode ev g st n)) : genNode ev f st n = genNode ev g st n := by
   rcases Nat.le_total f g with h | h
-  · exact ((allMono ev f).genNode st n g h hok hn hf).symm
-  · exact (allMono ev g).genNode st n f h hok hn hg
+  · exact ((allMono ev f).genNode st n g h hf).symm
+  · exact (allMono ev g).genNode st n f h hg
 
 theorem NF_of_ok {α : Type} {x : St ρ × Except CErr α} {s : St ρ} {a : α} (h : x = (s, .ok a)) : NF x := by
   subst h; simp [NF]
@@ -1470,14 +614,14 @@ theorem FT_append {ev : Evalr ρ} {st s1 s2 : St ρ} {ns ms : List Node} {e1 e2 
 
 /-- `Ok` is carried along a first-try run -/
 theorem FT_ok {ev : Evalr ρ} {st s2 : St ρ} {ns : List Node} {evs : List Ev} {b : Option BoundingBox}
-    (h : FT ev st ns s2 evs b) (hok : Ok st) (hns : ∀ n ∈ ns, n.specsFree = true) : Ok s2 := by
+    (h : FT ev st ns s2 evs b) (hok : Ok st) : Ok s2 := by
   induction h with
   | nil st => exact hok
   | @cons g st n s1 evs b ns s2 evs' bb hg _ ih =>
-    have h1 : Ok (registerEarly ev st n) := ok_registerEarly ev st n hok (hns n (by simp))
-    have h2 := (allOk ev g).genNode _ n h1 (hns n (by simp))
+    have h1 : Ok (registerEarly ev st n) := ok_registerEarly ev st n hok
+    have h2 := (allOk ev g).genNode _ n h1
     rw [hg] at h2
-    exact ih h2 (fun m hm => hns m (by simp [hm]))
+    exact ih h2
 
 /-! ### the pending list only grows -/
 
@@ -1496,13 +640,15 @@ theorem onePass_rem_len (ev : Evalr ρ) : ∀ (f : Nat) (ts : List Tag) (st : St
     | cons t ts =>
       rw [onePass] at h
       split at h
-      · exact ih _ _ _ _ _ _ _ _ _ h
       · split at h
-        · exact ih _ _ _ _ _ _ _ _ _ h
+        · simp at h
         · split at h
-          · simp at h
+          · exact ih _ _ _ _ _ _ _ _ _ h
           · have := ih _ _ _ _ _ _ _ _ _ h
             simp at this; omega
+      · split at h
+        · exact ih _ _ _ _ _ _ _ _ _ h
+        · exact ih _ _ _ _ _ _ _ _ _ h
 
 /-- the entry `onePass` appends for a tag that produced `evs` -/
 def outOf (idx : Nat) (evs : List Ev) : List (Nat × List Ev) := if evs.isEmpty then [] else [(idx, evs)]
@@ -1521,14 +667,14 @@ theorem outOf_sub (idx : Nat) (evs : List Ev) : ((outOf idx evs).map (·.1)).Sub
 
 theorem FT_of_onePass (ev : Evalr ρ) : ∀ (ts : List Tag) (g : Nat) (st : St ρ) (outs : List (Nat × List Ev))
     (bb : Option BoundingBox) (st' : St ρ) (outs' : List (Nat × List Ev)) (bb' : Option BoundingBox),
-    Ok st → (∀ t ∈ ts, t.node.specsFree = true) →
+    Ok st →
     onePass ev g st ts outs bb [] = (st', .ok (outs', bb', [])) →
     ∃ evs b, FT ev st (ts.map (·.node)) st' evs b ∧ bb' = unionOpt bb b ∧
       ∃ outs₁, outs' = outs ++ outs₁ ∧ outs₁.flatMap (·.2) = evs := by
   intro ts
   induction ts with
   | nil =>
-    intro g st outs bb st' outs' bb' _ _ h
+    intro g st outs bb st' outs' bb' _ h
     cases g with
     | zero => simp [onePass] at h
     | succ g =>
@@ -1536,19 +682,20 @@ theorem FT_of_onePass (ev : Evalr ρ) : ∀ (ts : List Tag) (g : Nat) (st : St 
       obtain ⟨rfl, rfl, rfl, _⟩ := h
       exact ⟨[], none, FT.nil _, (unionOpt_none_right _).symm, [], by simp, by simp⟩
   | cons t ts ih =>
-    intro g st outs bb st' outs' bb' hok hts h
+    intro g st outs bb st' outs' bb' hok h
     cases g with
     | zero => simp [onePass] at h
     | succ g =>
-      have hn : t.node.specsFree = true := hts t (by simp)
-      have h1 : Ok (registerEarly ev st t.node) := ok_registerEarly ev st _ hok hn
-      have h2 : Ok (genNode ev g (registerEarly ev st t.node) t.node).1 := (allOk ev g).genNode _ _ h1 hn
+      have h1 : Ok (registerEarly ev st t.node) := ok_registerEarly ev st _ hok
+      have h2 : Ok (genNode ev g (registerEarly ev st t.node) t.node).1 := (allOk ev g).genNode _ _ h1
+      have hsp : ¬ ((genNode ev g (registerEarly ev st t.node) t.node).1.inSpecs = true) := by
+        rw [h2.inSpecs]; simp
       rw [onePass] at h
-      rw [if_neg (by rw [h2.inSpecs]; simp)] at h
       cases hr : (genNode ev g (registerEarly ev st t.node) t.node).2 with
       | error er =>
         rw [hr] at h
         dsimp only at h
+        rw [if_neg hsp] at h
         split at h
         · simp at h
         · have := onePass_rem_len ev _ _ _ _ _ _ _ _ _ _ h
@@ -1557,9 +704,9 @@ theorem FT_of_onePass (ev : Evalr ρ) : ∀ (ts : List Tag) (g : Nat) (st : St 
         obtain ⟨evs, b⟩ := r
         rw [hr] at h
         dsimp only at h
-        rw [outOf_append] at h
+        rw [if_neg hsp, outOf_append] at h
         obtain ⟨evs', b', hft, hbb, outs₁, ho, hfl⟩ :=
-          ih g _ _ _ st' outs' bb' h2 (fun t' ht' => hts t' (by simp [ht'])) h
+          ih g _ _ _ st' outs' bb' h2 h
         have hg : genNode ev g (registerEarly ev st t.node) t.node
             = ((genNode ev g (registerEarly ev st t.node) t.node).1, .ok (evs, b)) := by
           rw [← hr]
@@ -1573,20 +720,20 @@ theorem FT_of_onePass (ev : Evalr ρ) : ∀ (ts : List Tag) (g : Nat) (st : St 
 
 theorem onePass_of_FT {ev : Evalr ρ} {st st' : St ρ} {ns : List Node} {evs : List Ev} {b : Option BoundingBox}
     (hft : FT ev st ns st' evs b) : ∀ (ts : List Tag) (F : Nat) (outs : List (Nat × List Ev))
-    (bb : Option BoundingBox) (rem : List Tag), ts.map (·.node) = ns → Ok st → (∀ n ∈ ns, n.specsFree = true) →
+    (bb : Option BoundingBox) (rem : List Tag), ts.map (·.node) = ns → Ok st →
     NF (onePass ev F st ts outs bb rem) →
     ∃ outs₁, onePass ev F st ts outs bb rem = (st', .ok (outs ++ outs₁, unionOpt bb b, rem.reverse)) ∧
       outs₁.flatMap (·.2) = evs ∧ (outs₁.map (·.1)).Sublist (ts.map (·.idx)) := by
   induction hft with
   | nil st =>
-    intro ts F outs bb rem hts _ _ hnf
+    intro ts F outs bb rem hts _ hnf
     have : ts = [] := by simpa using hts
     subst this
     cases F with
     | zero => simp [onePass, NF] at hnf
     | succ F => exact ⟨[], by simp [onePass, unionOpt_none_right], by simp, by simp⟩
   | @cons g st n s1 evs b ns s2 evs' b' hg _ ih =>
-    intro ts F outs bb rem hts hok hns hnf
+    intro ts F outs bb rem hts hok hnf
     cases ts with
     | nil => simp at hts
     | cons t ts =>
@@ -1595,24 +742,23 @@ theorem onePass_of_FT {ev : Evalr ρ} {st st' : St ρ} {ns : List Node} {evs : L
       cases F with
       | zero => simp [onePass, NF] at hnf
       | succ F =>
-        have hn : t.node.specsFree = true := hns _ (by simp)
-        have h1 : Ok (registerEarly ev st t.node) := ok_registerEarly ev st _ hok hn
-        have h2 : Ok (genNode ev F (registerEarly ev st t.node) t.node).1 := (allOk ev F).genNode _ _ h1 hn
+        have h1 : Ok (registerEarly ev st t.node) := ok_registerEarly ev st _ hok
+        have h2 : Ok (genNode ev F (registerEarly ev st t.node) t.node).1 := (allOk ev F).genNode _ _ h1
         have hnfF : NF (genNode ev F (registerEarly ev st t.node) t.node) := by
           intro hfu
           apply hnf
-          rw [onePass, if_neg (by rw [h2.inSpecs]; simp), hfu]
+          rw [onePass, hfu]
           simp
         have hgF : genNode ev F (registerEarly ev st t.node) t.node = (s1, .ok (evs, b)) := by
-          rw [genNode_agree ev F g _ _ h1 hn hnfF (NF_of_ok hg), hg]
+          rw [genNode_agree ev F g _ _ hnfF (NF_of_ok hg), hg]
         have hs1 : Ok s1 := by rw [hgF] at h2; exact h2
         have hstep : onePass ev (F + 1) st (t :: ts) outs bb rem
             = onePass ev F s1 ts (outs ++ outOf t.idx evs) (unionOpt bb b) rem := by
-          rw [onePass, hgF, if_neg (by rw [hs1.inSpecs]; simp)]
+          rw [onePass, hgF]
           dsimp only
-          rw [outOf_append]
+          rw [if_neg (by rw [hs1.inSpecs]; simp), outOf_append]
         rw [hstep] at hnf ⊢
-        obtain ⟨outs₁, he, hfl, hsub⟩ := ih ts F _ _ rem hts hs1 (fun m hm => hns m (by simp [hm])) hnf
+        obtain ⟨outs₁, he, hfl, hsub⟩ := ih ts F _ _ rem hts hs1 hnf
         refine ⟨outOf t.idx evs ++ outs₁, ?_, ?_, ?_⟩
         · rw [he, List.append_assoc, C16.unionOpt_assoc]
         · rw [List.flatMap_append, outOf_flat, hfl]
@@ -1679,7 +825,7 @@ theorem sorted_of_sub_tags (ks : Nodes) (outs : List (Nat × List Ev))
 
 theorem retry_of_FT {ev : Evalr ρ} {st st' : St ρ} {evs : List Ev} {b : Option BoundingBox} (ts : List Tag)
     (hft : FT ev st (ts.map (·.node)) st' evs b) (f : Nat) (outs : List (Nat × List Ev)) (bb : Option BoundingBox)
-    (hok : Ok st) (hns : ∀ n ∈ ts.map (·.node), n.specsFree = true) (hnf : NF (retry ev f st ts outs bb)) :
+    (hok : Ok st) (hnf : NF (retry ev f st ts outs bb)) :
     ∃ outs₁, retry ev f st ts outs bb = (st', .ok (outs ++ outs₁, unionOpt bb b)) ∧
       outs₁.flatMap (·.2) = evs ∧ (outs₁.map (·.1)).Sublist (ts.map (·.idx)) := by
   cases f with
@@ -1692,7 +838,7 @@ theorem retry_of_FT {ev : Evalr ρ} {st st' : St ρ} {evs : List Ev} {b : Option
     | cons t ts =>
       have hnf1 : NF (onePass ev f st (t :: ts) outs bb []) := by
         intro hfu; apply hnf; rw [retry]; unfold seq; rw [hfu]
-      obtain ⟨outs₁, he, hfl, hsub⟩ := onePass_of_FT hft (t :: ts) f outs bb [] rfl hok hns hnf1
+      obtain ⟨outs₁, he, hfl, hsub⟩ := onePass_of_FT hft (t :: ts) f outs bb [] rfl hok hnf1
       have hstep : retry ev (f + 1) st (t :: ts) outs bb = retry ev f st' [] (outs ++ outs₁) (unionOpt bb b) := by
         rw [retry]; unfold seq; rw [he]; simp
       rw [hstep] at hnf ⊢
@@ -1701,7 +847,7 @@ theorem retry_of_FT {ev : Evalr ρ} {st st' : St ρ} {evs : List Ev} {b : Option
       | succ f => exact ⟨outs₁, by simp [retry], hfl, hsub⟩
 
 theorem processNodes_of_FT {ev : Evalr ρ} {st st' : St ρ} {evs : List Ev} {b : Option BoundingBox} (ks : Nodes)
-    (hft : FT ev st ks.toList st' evs b) (f : Nat) (hok : Ok st) (hks : ks.specsFree = true)
+    (hft : FT ev st ks.toList st' evs b) (f : Nat) (hok : Ok st)
     (hnf : NF (processNodes ev f st ks)) : processNodes ev f st ks = (st', .ok (evs, b)) := by
   cases f with
   | zero => simp [processNodes, NF] at hnf
@@ -1709,8 +855,7 @@ theorem processNodes_of_FT {ev : Evalr ρ} {st st' : St ρ} {evs : List Ev} {b :
     have hnf1 : NF (retry ev f st (tagsOf ks) [] none) := by
       intro hfu; apply hnf; rw [processNodes]; unfold seq; unfold tagsOf at hfu; rw [hfu]
     have hft' : FT ev st ((tagsOf ks).map (·.node)) st' evs b := by rw [tagsOf_node]; exact hft
-    obtain ⟨outs₁, he, hfl, hsub⟩ := retry_of_FT (tagsOf ks) hft' f [] none hok
-      (by rw [tagsOf_node]; exact (specsFree_iff ks).1 hks) hnf1
+    obtain ⟨outs₁, he, hfl, hsub⟩ := retry_of_FT (tagsOf ks) hft' f [] none hok hnf1
     rw [processNodes]; unfold seq
     unfold tagsOf at he
     rw [he]
@@ -1718,8 +863,6 @@ theorem processNodes_of_FT {ev : Evalr ρ} {st st' : St ρ} {evs : List Ev} {b :
     rw [sortOuts_sorted _ (sorted_of_sub_tags ks outs₁ hsub), hfl]
 
 /-! ### the `<var>` element of the unrolling -/
-
-theorem varNode_specsFree (name : Str) (v : Rat) : (varNode name v).specsFree = true := rfl
 
 theorem registerEarly_varNode (ev : Evalr ρ) (st : St ρ) (name : Str) (v : Rat) (hid : name ≠ cs!"id") :
     registerEarly ev st (varNode name v) = st := by
@@ -1771,7 +914,7 @@ inductive Passes (ev : Evalr ρ) (name : Str) (step : Rat) (ks : Nodes) :
       Passes ev name step ks n s1 (v + step) (it + 1) s2 evs' bb →
       Passes ev name step ks (n + 1) st v it s2 (evs ++ evs') (unionOpt b bb)
 
-theorem passes_of_firstTry (ev : Evalr ρ) (name : Str) (step : Rat) (ks : Nodes) (hks : ks.specsFree = true) :
+theorem passes_of_firstTry (ev : Evalr ρ) (name : Str) (step : Rat) (ks : Nodes) :
     ∀ (n : Nat) (st : St ρ) (v : Rat) (it : Nat), Ok st → FirstTryLoop ev name step ks n st v it →
     ∃ s2 evs bb, Passes ev name step ks n st v it s2 evs bb := by
   intro n
@@ -1781,18 +924,14 @@ theorem passes_of_firstTry (ev : Evalr ρ) (name : Str) (step : Rat) (ks : Nodes
     intro st v it hok h
     obtain ⟨hd, hv, g, st', outs, bb, hone, hlim, hrest⟩ := h
     have hokb : Ok (bindLoopVar st name v) := ok_bindLoopVar st name v hok
-    have hts : ∀ t ∈ tagsOf ks, t.node.specsFree = true := by
-      intro t ht
-      apply (specsFree_iff ks).1 hks
-      rw [← tagsOf_node]; exact List.mem_map_of_mem ht
-    obtain ⟨evs, b, hft, _, _⟩ := FT_of_onePass ev (tagsOf ks) g _ [] none st' outs bb hokb hts hone
+    obtain ⟨evs, b, hft, _, _⟩ := FT_of_onePass ev (tagsOf ks) g _ [] none st' outs bb hokb hone
     rw [tagsOf_node] at hft
-    have hok' : Ok st' := FT_ok hft hokb ((specsFree_iff ks).1 hks)
+    have hok' : Ok st' := FT_ok hft hokb
     obtain ⟨s2, evs', bb', hp⟩ := ih st' (v + step) (it + 1) hok' hrest
     exact ⟨s2, evs ++ evs', unionOpt b bb', Passes.pass hd hv hft hlim hp⟩
 
 /-- LOOP SIDE -/
-theorem loopIter_of_passes {ev : Evalr ρ} {name : Str} {step : Rat} {ks : Nodes} (hks : ks.specsFree = true)
+theorem loopIter_of_passes {ev : Evalr ρ} {name : Str} {step : Rat} {ks : Nodes}
     {n : Nat} {st : St ρ} {v : Rat} {it : Nat} {s2 : St ρ} {evs : List Ev} {bb : Option BoundingBox}
     (hp : Passes ev name step ks n st v it s2 evs bb) :
     ∀ (f : Nat) (acc : List Ev) (bb0 : Option BoundingBox), Ok st →
@@ -1815,24 +954,14 @@ theorem loopIter_of_passes {ev : Evalr ρ} {name : Str} {step : Rat} {ks : Nodes
       have hnfb : NF (processNodes ev f (bindLoopVar st name v) ks) := by
         intro hfu; apply hnf
         rw [loopIter]; simp only [seq, hpre]; simp [hfu]
-      have hbody := processNodes_of_FT ks hft f hokb hks hnfb
-      have hok1 : Ok s1 := FT_ok hft hokb ((specsFree_iff ks).1 hks)
+      have hbody := processNodes_of_FT ks hft f hokb hnfb
+      have hok1 : Ok s1 := FT_ok hft hokb
       have hstep := C16.loop_iteration ev f st st s1 s1 ks (some (it + (n + 1))) none none name v step it acc bb0
         (evs, b) hpre hbody hlim rfl
       have hidx : it + (n + 1) = it + 1 + n := by omega
       rw [hstep] at hnf ⊢
       rw [hidx] at hnf ⊢
       rw [ih f _ _ hok1 hnf, List.append_assoc, C16.unionOpt_assoc]
-
-theorem unroll_specsFree (name : Str) (vals : List Rat) (ks : Nodes) (hks : ks.specsFree = true) :
-    (unroll name vals ks).specsFree = true := by
-  rw [specsFree_iff, unroll, toList_ofList]
-  intro n hn
-  rw [List.mem_flatMap] at hn
-  obtain ⟨v, _, hv⟩ := hn
-  rcases List.mem_cons.1 hv with h | h
-  · rw [h]; rfl
-  · exact (specsFree_iff ks).1 hks n h
 
 /-- UNROLL SIDE -/
 theorem FT_unroll_of_passes {ev : Evalr ρ} {name : Str} {step : Rat} {ks : Nodes}
@@ -1859,7 +988,7 @@ theorem FT_unroll_of_passes {ev : Evalr ρ} {name : Str} {step : Rat} {ks : Node
 /-- **a count loop renders what its manual unrolling renders**: final state and result are the same -/
 theorem loop_eq_unroll (ev : Evalr ρ) (name : Str) (start step : Rat) (N : Nat) (ks : Nodes) (st : St ρ)
     (hname : name ≠ [] ∧ name ≠ ['_'] ∧ name ≠ cs!"__" ∧ name ≠ cs!"id")
-    (hok : Ok st) (hks : ks.specsFree = true)
+    (hok : Ok st)
     (hev : LitEval ev (loopVals start step N))
     (hfirst : FirstTryLoop ev name step ks N st start 0)
     (fL fU : Nat)
@@ -1867,34 +996,33 @@ theorem loop_eq_unroll (ev : Evalr ρ) (name : Str) (start step : Rat) (N : Nat)
     (hU : NF (processNodes ev fU st (unroll name (loopVals start step N) ks))) :
     loopIter ev fL st ks (some N) none none name start step 0 [] none
       = processNodes ev fU st (unroll name (loopVals start step N) ks) := by
-  obtain ⟨s2, evs, bb, hp⟩ := passes_of_firstTry ev name step ks hks N st start 0 hok hfirst
-  have hl := loopIter_of_passes hks hp fL [] none hok (by simpa using hL)
+  obtain ⟨s2, evs, bb, hp⟩ := passes_of_firstTry ev name step ks N st start 0 hok hfirst
+  have hl := loopIter_of_passes hp fL [] none hok (by simpa using hL)
   simp only [Nat.zero_add, List.nil_append, C16.unionOpt_none_left] at hl
-  have hu := processNodes_of_FT _ (FT_unroll_of_passes hname hp hev) fU hok (unroll_specsFree name _ ks hks) hU
+  have hu := processNodes_of_FT _ (FT_unroll_of_passes hname hp hev) fU hok hU
   rw [hl, hu]
 
 /-! ### non-vacuity: enough fuel exists on both sides -/
 
 theorem onePass_NF_of_FT {ev : Evalr ρ} {st st' : St ρ} {ns : List Node} {evs : List Ev} {b : Option BoundingBox}
-    (hft : FT ev st ns st' evs b) : Ok st → (∀ n ∈ ns, n.specsFree = true) →
+    (hft : FT ev st ns st' evs b) : Ok st →
     ∃ G, ∀ f, G ≤ f → ∀ (ts : List Tag) (outs : List (Nat × List Ev)) (bb : Option BoundingBox) (rem : List Tag),
       ts.map (·.node) = ns → NF (onePass ev f st ts outs bb rem) := by
   induction hft with
   | nil st =>
-    intro _ _
+    intro _
     refine ⟨1, fun f hf ts outs bb rem hts => ?_⟩
     have : ts = [] := by simpa using hts
     subst this
     obtain ⟨f, rfl⟩ : ∃ f', f = f' + 1 := ⟨f - 1, by omega⟩
     simp [onePass, NF]
   | @cons g st n s1 evs b ns s2 evs' b' hg hrest ih =>
-    intro hok hns
-    have hn : n.specsFree = true := hns _ (by simp)
-    have h1 : Ok (registerEarly ev st n) := ok_registerEarly ev st _ hok hn
+    intro hok
+    have h1 : Ok (registerEarly ev st n) := ok_registerEarly ev st n hok
     have hs1 : Ok s1 := by
-      have h2 := (allOk ev g).genNode _ _ h1 hn
+      have h2 := (allOk ev g).genNode _ n h1
       rw [hg] at h2; exact h2
-    obtain ⟨G, hG⟩ := ih hs1 (fun m hm => hns m (by simp [hm]))
+    obtain ⟨G, hG⟩ := ih hs1
     refine ⟨max g G + 1, fun f hf ts outs bb rem hts => ?_⟩
     obtain ⟨f, rfl⟩ : ∃ f', f = f' + 1 := ⟨f - 1, by omega⟩
     cases ts with
@@ -1903,41 +1031,42 @@ theorem onePass_NF_of_FT {ev : Evalr ρ} {st st' : St ρ} {ns : List Node} {evs 
       simp only [List.map_cons, List.cons.injEq] at hts
       obtain ⟨rfl, hts⟩ := hts
       have hgF : genNode ev f (registerEarly ev st t.node) t.node = (s1, .ok (evs, b)) := by
-        rw [(allMono ev g).genNode _ _ f (by omega) h1 hn (NF_of_ok hg), hg]
-      rw [onePass, hgF, if_neg (by rw [hs1.inSpecs]; simp)]
+        rw [(allMono ev g).genNode _ _ f (by omega) (NF_of_ok hg), hg]
+      rw [onePass, hgF]
+      dsimp only
+      rw [if_neg (by rw [hs1.inSpecs]; simp)]
       exact hG f (by omega) ts _ _ rem hts
 
 theorem retry_NF_of_FT {ev : Evalr ρ} {st st' : St ρ} {ns : List Node} {evs : List Ev} {b : Option BoundingBox}
-    (hft : FT ev st ns st' evs b) (hok : Ok st) (hns : ∀ n ∈ ns, n.specsFree = true) :
+    (hft : FT ev st ns st' evs b) (hok : Ok st) :
     ∃ G, ∀ f, G ≤ f → ∀ (ts : List Tag) (outs : List (Nat × List Ev)) (bb : Option BoundingBox),
       ts.map (·.node) = ns → NF (retry ev f st ts outs bb) := by
-  obtain ⟨G, hG⟩ := onePass_NF_of_FT hft hok hns
+  obtain ⟨G, hG⟩ := onePass_NF_of_FT hft hok
   refine ⟨G + 2, fun f hf ts outs bb hts => ?_⟩
   obtain ⟨f, rfl⟩ : ∃ f', f = f' + 2 := ⟨f - 2, by omega⟩
   subst hts
   cases ts with
   | nil => simp [retry, NF]
   | cons t ts =>
-    obtain ⟨outs₁, he, _, _⟩ := onePass_of_FT hft (t :: ts) (f + 1) outs bb [] rfl hok hns
+    obtain ⟨outs₁, he, _, _⟩ := onePass_of_FT hft (t :: ts) (f + 1) outs bb [] rfl hok
       (hG (f + 1) (by omega) _ _ _ _ rfl)
     rw [retry]; unfold seq; rw [he]
     simp [retry, NF]
 
 theorem processNodes_NF_of_FT {ev : Evalr ρ} {st st' : St ρ} {evs : List Ev} {b : Option BoundingBox} (ks : Nodes)
-    (hft : FT ev st ks.toList st' evs b) (hok : Ok st) (hks : ks.specsFree = true) :
+    (hft : FT ev st ks.toList st' evs b) (hok : Ok st) :
     ∃ G, ∀ f, G ≤ f → NF (processNodes ev f st ks) := by
-  have hns := (specsFree_iff ks).1 hks
-  obtain ⟨G, hG⟩ := retry_NF_of_FT hft hok hns
+  obtain ⟨G, hG⟩ := retry_NF_of_FT hft hok
   refine ⟨G + 1, fun f hf => ?_⟩
   obtain ⟨f, rfl⟩ : ∃ f', f = f' + 1 := ⟨f - 1, by omega⟩
   have hnf := hG f (by omega) (tagsOf ks) [] none (tagsOf_node ks)
   have hft' : FT ev st ((tagsOf ks).map (·.node)) st' evs b := by rw [tagsOf_node]; exact hft
-  obtain ⟨outs₁, he, _, _⟩ := retry_of_FT (tagsOf ks) hft' f [] none hok (by rw [tagsOf_node]; exact hns) hnf
+  obtain ⟨outs₁, he, _, _⟩ := retry_of_FT (tagsOf ks) hft' f [] none hok hnf
   rw [processNodes]; unfold seq
   unfold tagsOf at he
   rw [he]; simp [NF]
 
-theorem loopIter_NF_of_passes {ev : Evalr ρ} {name : Str} {step : Rat} {ks : Nodes} (hks : ks.specsFree = true)
+theorem loopIter_NF_of_passes {ev : Evalr ρ} {name : Str} {step : Rat} {ks : Nodes}
     {n : Nat} {st : St ρ} {v : Rat} {it : Nat} {s2 : St ρ} {evs : List Ev} {bb : Option BoundingBox}
     (hp : Passes ev name step ks n st v it s2 evs bb) : Ok st →
     ∃ G, ∀ f, G ≤ f → ∀ (acc : List Ev) (bb0 : Option BoundingBox),
@@ -1951,14 +1080,14 @@ theorem loopIter_NF_of_passes {ev : Evalr ρ} {name : Str} {step : Rat} {ks : No
   | @pass n st v it s1 evs b s2 evs' bb hd hv hft hlim _ ih =>
     intro hok
     have hokb : Ok (bindLoopVar st name v) := ok_bindLoopVar st name v hok
-    have hok1 : Ok s1 := FT_ok hft hokb ((specsFree_iff ks).1 hks)
-    obtain ⟨G1, hG1⟩ := processNodes_NF_of_FT ks hft hokb hks
+    have hok1 : Ok s1 := FT_ok hft hokb
+    obtain ⟨G1, hG1⟩ := processNodes_NF_of_FT ks hft hokb
     obtain ⟨G2, hG2⟩ := ih hok1
     refine ⟨max G1 G2 + 1, fun f hf acc bb0 => ?_⟩
     obtain ⟨f, rfl⟩ : ∃ f', f = f' + 1 := ⟨f - 1, by omega⟩
     have hpre : preTest ev st (some (it + (n + 1))) none it = (st, .ok true) := by
       simp [preTest]
-    have hbody := processNodes_of_FT ks hft f hokb hks (hG1 f (by omega))
+    have hbody := processNodes_of_FT ks hft f hokb (hG1 f (by omega))
     have hstep := C16.loop_iteration ev f st st s1 s1 ks (some (it + (n + 1))) none none name v step it acc bb0
       (evs, b) hpre hbody hlim rfl
     have hidx : it + (n + 1) = it + 1 + n := by omega
@@ -1968,47 +1097,47 @@ theorem loopIter_NF_of_passes {ev : Evalr ρ} {name : Str} {step : Rat} {ks : No
 /-- **the fuel hypotheses of `loop_eq_unroll` can be met**: from some fuel on, neither side reports the fuel error -/
 theorem loop_unroll_fuel_exists (ev : Evalr ρ) (name : Str) (start step : Rat) (N : Nat) (ks : Nodes) (st : St ρ)
     (hname : name ≠ [] ∧ name ≠ ['_'] ∧ name ≠ cs!"__" ∧ name ≠ cs!"id")
-    (hok : Ok st) (hks : ks.specsFree = true)
+    (hok : Ok st)
     (hev : LitEval ev (loopVals start step N))
     (hfirst : FirstTryLoop ev name step ks N st start 0) :
     ∃ F, ∀ f, F ≤ f → NF (loopIter ev f st ks (some N) none none name start step 0 [] none) ∧
       NF (processNodes ev f st (unroll name (loopVals start step N) ks)) := by
-  obtain ⟨s2, evs, bb, hp⟩ := passes_of_firstTry ev name step ks hks N st start 0 hok hfirst
-  obtain ⟨G1, hG1⟩ := loopIter_NF_of_passes hks hp hok
-  obtain ⟨G2, hG2⟩ := processNodes_NF_of_FT _ (FT_unroll_of_passes hname hp hev) hok (unroll_specsFree name _ ks hks)
+  obtain ⟨s2, evs, bb, hp⟩ := passes_of_firstTry ev name step ks N st start 0 hok hfirst
+  obtain ⟨G1, hG1⟩ := loopIter_NF_of_passes hp hok
+  obtain ⟨G2, hG2⟩ := processNodes_NF_of_FT _ (FT_unroll_of_passes hname hp hev) hok
   refine ⟨max G1 G2, fun f hf => ⟨?_, hG2 f (by omega)⟩⟩
   simpa using hG1 f (by omega) [] none
 
 /-- the two theorems together: from some fuel on, both sides succeed or fail alike with the same state and result -/
 theorem loop_eq_unroll_eventually (ev : Evalr ρ) (name : Str) (start step : Rat) (N : Nat) (ks : Nodes) (st : St ρ)
     (hname : name ≠ [] ∧ name ≠ ['_'] ∧ name ≠ cs!"__" ∧ name ≠ cs!"id")
-    (hok : Ok st) (hks : ks.specsFree = true)
+    (hok : Ok st)
     (hev : LitEval ev (loopVals start step N))
     (hfirst : FirstTryLoop ev name step ks N st start 0) :
     ∃ F, ∀ fL fU, F ≤ fL → F ≤ fU →
       loopIter ev fL st ks (some N) none none name start step 0 [] none
         = processNodes ev fU st (unroll name (loopVals start step N) ks) := by
-  obtain ⟨F, hF⟩ := loop_unroll_fuel_exists ev name start step N ks st hname hok hks hev hfirst
+  obtain ⟨F, hF⟩ := loop_unroll_fuel_exists ev name start step N ks st hname hok hev hfirst
   exact ⟨F, fun fL fU hL hU =>
-    loop_eq_unroll ev name start step N ks st hname hok hks hev hfirst fL fU (hF fL hL).1 (hF fU hU).2⟩
+    loop_eq_unroll ev name start step N ks st hname hok hev hfirst fL fU (hF fL hL).1 (hF fU hU).2⟩
 
 /-! ### corollaries -/
 
 /-- the common value: from some fuel on, both sides SUCCEED, with the same final state, events and box -/
 theorem loop_unroll_ok (ev : Evalr ρ) (name : Str) (start step : Rat) (N : Nat) (ks : Nodes) (st : St ρ)
     (hname : name ≠ [] ∧ name ≠ ['_'] ∧ name ≠ cs!"__" ∧ name ≠ cs!"id")
-    (hok : Ok st) (hks : ks.specsFree = true)
+    (hok : Ok st)
     (hev : LitEval ev (loopVals start step N))
     (hfirst : FirstTryLoop ev name step ks N st start 0) :
     ∃ F s2 evs bb, ∀ fL fU, F ≤ fL → F ≤ fU →
       loopIter ev fL st ks (some N) none none name start step 0 [] none = (s2, .ok (evs, bb)) ∧
       processNodes ev fU st (unroll name (loopVals start step N) ks) = (s2, .ok (evs, bb)) := by
-  obtain ⟨s2, evs, bb, hp⟩ := passes_of_firstTry ev name step ks hks N st start 0 hok hfirst
-  obtain ⟨F, hF⟩ := loop_unroll_fuel_exists ev name start step N ks st hname hok hks hev hfirst
+  obtain ⟨s2, evs, bb, hp⟩ := passes_of_firstTry ev name step ks N st start 0 hok hfirst
+  obtain ⟨F, hF⟩ := loop_unroll_fuel_exists ev name start step N ks st hname hok hev hfirst
   refine ⟨F, s2, evs, bb, fun fL fU hL hU => ⟨?_, ?_⟩⟩
-  · have hl := loopIter_of_passes hks hp fL [] none hok (by simpa using (hF fL hL).1)
+  · have hl := loopIter_of_passes hp fL [] none hok (by simpa using (hF fL hL).1)
     simpa only [Nat.zero_add, List.nil_append, C16.unionOpt_none_left] using hl
-  · exact processNodes_of_FT _ (FT_unroll_of_passes hname hp hev) fU hok (unroll_specsFree name _ ks hks) (hF fU hU).2
+  · exact processNodes_of_FT _ (FT_unroll_of_passes hname hp hev) fU hok (hF fU hU).2
 
 /-- the same at the level of the `<loop>` ELEMENT: when its head evaluates to `count = N`, loop variable `name`,
     `start`, `step` (leaving the random state `rng`), `genLoop` on the element is `processNodes` on the unrolling -/
@@ -2016,7 +1145,7 @@ theorem genLoop_eq_unroll (ev : Evalr ρ) (e : Elem) (name : Str) (start step : 
     (rng : ρ) (hcount : (e.getAttr cs!"count").isSome = true)
     (hhead : loopHead ev st e = .ok (some N, name, start, step, rng))
     (hname : name ≠ [] ∧ name ≠ ['_'] ∧ name ≠ cs!"__" ∧ name ≠ cs!"id")
-    (hok : Ok st) (hks : ks.specsFree = true)
+    (hok : Ok st)
     (hev : LitEval ev (loopVals start step N))
     (hfirst : FirstTryLoop ev name step ks N { st with rng := rng } start 0)
     (fL fU : Nat)
@@ -2036,7 +1165,7 @@ theorem genLoop_eq_unroll (ev : Evalr ρ) (e : Elem) (name : Str) (start step : 
       · exact ht
     rw [hg] at hL ⊢
     exact loop_eq_unroll ev name start step N ks ({ st with rng := rng } : St ρ) hname
-      (ok_of_fields hok rfl rfl rfl) hks hev hfirst f fU hL hU
+      (ok_of_fields hok rfl rfl) hev hfirst f fU hL hU
 
 /-! ### a decidable form of the first-attempt hypothesis (for concrete instances) -/
 
@@ -2088,9 +1217,7 @@ def name : Str := ['i']
 
 theorem name_legal : name ≠ [] ∧ name ≠ ['_'] ∧ name ≠ cs!"__" ∧ name ≠ cs!"id" := by decide
 
-theorem st0_ok : Ok st0 := ⟨rfl, by simp [st0], by intro i e k h; simp [st0] at h⟩
-
-theorem body_specsFree : body.specsFree = true := rfl
+theorem st0_ok : Ok st0 := ⟨rfl, by simp [st0]⟩
 
 theorem vals : (loopVals 0 10 3).map loopVarStr = [['0'], ['1', '0'], ['2', '0']] := by decide +kernel
 
@@ -2120,7 +1247,7 @@ theorem nf_both : NF (loopIter simpleEvalr 20 st0 body (some 3) none none name 0
 theorem loop_is_unrolling :
     loopIter simpleEvalr 20 st0 body (some 3) none none name 0 10 0 [] none
       = processNodes simpleEvalr 20 st0 (unroll name (loopVals 0 10 3) body) :=
-  loop_eq_unroll simpleEvalr name 0 10 3 body st0 name_legal st0_ok body_specsFree litEval firstTry 20 20
+  loop_eq_unroll simpleEvalr name 0 10 3 body st0 name_legal st0_ok litEval firstTry 20 20
     nf_both.1 nf_both.2
 
 /-- … and the result, computed by the kernel on each side independently: three rectangles at x = 0, 10, 20 -/
